@@ -38,6 +38,7 @@ CONSTANTS Threads, Prog, TSO, Tracing, SBMax,
           FaultBudget,    \* number of spurious / EINTR returns of FUTEX_WAIT per execution
           SigThreads,     \* threads that can be interrupted by the signal handler (C19); {} otherwise
           SigBudget,      \* number of signal deliveries per execution
+          SigFutex,       \* TRUE: a signal may also hit a thread asleep in FUTEX_WAIT; its wait then returns EINTR (runtime: VRT_SIG_FUTEX=1)
           FutexMode,      \* "futex" | "enosys" | "compat" (see above)
           Skip, Weak,     \* mutation parameters: sets of labels ({} for all claims)
           SBBlock         \* TRUE: stores block on a full buffer (SBMax) -- no state constraint needed
@@ -56,6 +57,9 @@ Locs == {"gp_ctr", "gp_futex", "gptr", "waiters"} \cup {Rctr(t) : t \in Threads}
 FlId(t) == "F:" \o t
 Flushers == {FlId(t) : t \in Threads}
 FlOf == [f \in Flushers |-> CHOOSE t \in Threads : FlId(t) = f]
+WId(t) == "W:" \o t
+FaultIds == {WId(t) : t \in Threads}
+WOf == [w \in FaultIds |-> CHOOSE t \in Threads : WId(t) = w]
 SigId(t) == "S:" \o t
 SigIds == {SigId(t) : t \in SigThreads}
 SigOf == [h \in SigIds |-> CHOOSE t \in SigThreads : SigId(t) = h]
@@ -73,9 +77,11 @@ variables
   lock = [m \in {"gp_lock", "registry_lock", "compat_lock"} |-> "free"],
   acc = [k |-> 0],
   registry = {}, cursnap = {}, qsr = {},       \* reader lists (plain data under registry_lock)
+  wnlive = {},                                 \* ghost (C02): stack wait nodes of synchronize_rcu() calls in progress (pushed, caller not yet returned)
   regd = {},                                   \* ghost (C15): threads between rcu_register_thread() and rcu_unregister_thread()
   sleeping = [t \in Threads |-> "none"],       \* FUTEX_WAIT: location slept on ("compat_cond": pthread_cond_wait in compat_futex_noasync)
   woken = [t \in Threads |-> FALSE],
+  wkind = [t \in Threads |-> "WAKE"],          \* how the pending wake-up came about: FUTEX_WAKE, or a fault (value-unchanged return 0 / EINTR)
   faults = 0, sigs = 0,
   myctr = [t \in Threads |-> 0],               \* each thread's reader word as the thread itself sees it (its TLS)
   insig = [t \in Threads |-> FALSE],           \* the thread is executing the signal handler
@@ -117,6 +123,19 @@ fl: while (TRUE) {
     }
 }
 
+\* Faults: a sleeper is taken off its futex (or condition variable) queue WITHOUT a wake-up call -- FUTEX_WAIT will return 0 with the word
+\* unchanged ("SPURIOUS") or -1/EINTR -- at most FaultBudget times per execution.  As in the kernel (and in the VSCHED runtime: agent W:<t>) this is
+\* a step of its own: a FUTEX_WAKE issued between it and the moment the sleeper runs again finds nobody to wake.  Not fair (faults need not happen).
+process (faulter \in FaultIds)
+{
+w_f: while (TRUE) {
+       await faults < FaultBudget /\ sleeping[WOf[self]] # "none" /\ ~woken[WOf[self]];
+       with (k \in IF sleeping[WOf[self]] = "compat_cond" THEN {"SPURIOUS"} ELSE {"SPURIOUS", "EINTR"}) {
+         woken[WOf[self]] := TRUE || wkind[WOf[self]] := k; faults := faults + 1;
+       }
+     }
+}
+
 \* C19: a signal handler doing rcu_read_lock(); p = rcu_dereference(gptr); rcu_read_unlock() that interrupts thread T at ANY
 \* point (between any two of its steps); T does not run while the handler is active (SpecSig below).
 process (sig \in SigIds)
@@ -124,9 +143,10 @@ variables T = SigOf[self], htmp = 0, hg = 0, hf = 0, hheld = NULL, entry = 0;
 {
 h_idle: while (TRUE) {
           await sigs < SigBudget /\ ~insig[T] /\ T \in registry \cup cursnap \cup qsr /\ pc[T] \notin {"Done", "t_end", "x_lock", "x_del", "x_unl"}
-                /\ sleeping[T] = "none"
+                /\ (sleeping[T] = "none" \/ (SigFutex /\ sleeping[T] # "compat_cond" /\ ~woken[T]))
                 /\ Drained(T);                                   \* signal delivery enters and leaves the kernel: a full barrier for T
           sigs := sigs + 1; insig[T] := TRUE; entry := myctr[T];
+          if (sleeping[T] # "none") { woken[T] := TRUE || wkind[T] := "EINTR" };   \* handler without SA_RESTART: the interrupted FUTEX_WAIT returns EINTR afterwards (no FaultBudget)
           acc := Ev(T, "sig_enter", "-", "-", "-", "-");
         \* rcu_read_lock()
 h_ltop:   htmp := myctr[T];
@@ -250,7 +270,8 @@ p_xchg:   Xchg(old, "gptr", op.o); res := old;
         \* ---------------- synchronize_rcu
 s_call:   pre[self] := OpenCS;
 s_mb0:    if ("s_mb0" \notin Skip) { Mb() };                      \* cds_wfs_push: cmm_emit_legacy_smp_mb()
-s_push:   Xchg(oldh, "waiters", Wn(self));                       \* old_head = uatomic_xchg(&s->head, new_head)
+s_push:   wnlive := wnlive \cup {Wn(self)};
+          Xchg(oldh, "waiters", Wn(self));                       \* old_head = uatomic_xchg(&s->head, new_head)
 s_link:   St(WnNext(Wn(self)), oldh);                            \* uatomic_store(&node->next, &old_head->node, RELEASE)
           if (oldh # END) { wi := 0; goto a_ld1 };               \* not first in queue: wait for the leader
         \* leader
@@ -275,14 +296,19 @@ s_gpun:   Unlock("gp_lock");
           it := popped;
         \* urcu_wake_all_waiters: cds_wfs_for_each_blocking_safe
 k_top:    if (it = END) { goto s_ret };
-k_next:   Ld(nx, WnNext(it));                                    \* cds_wfs_next_blocking: ___cds_wfs_node_sync_next
+k_next:   assert it \in wnlive;                                  \* C02: the waker only touches wait nodes whose owner has not returned (TEARDOWN protocol)
+          Ld(nx, WnNext(it));                                    \* cds_wfs_next_blocking: ___cds_wfs_node_sync_next
           if (nx = NULL) { goto k_next };
-k_ldst:   Ld(st, WnState(it));                                   \* if (uatomic_load(&wait_node->state) & RUNNING) continue
+k_ldst:   assert it \in wnlive;
+          Ld(st, WnState(it));                                   \* if (uatomic_load(&wait_node->state) & RUNNING) continue
           if (HasBit(st, RUNNING)) { it := nx; goto k_top };
-k_as:     Ld(st, WnState(it));                                   \* urcu_adaptative_wake_up: assert(state == WAITING)
+k_as:     assert it \in wnlive;
+          Ld(st, WnState(it));                                   \* urcu_adaptative_wake_up: assert(state == WAITING)
           assert st = WAITING;
-k_wk:     St(WnState(it), WAKEUP);                               \* uatomic_store(&wait->state, WAKEUP, RELEASE)
-k_ld2:    Ld(st, WnState(it));
+k_wk:     assert it \in wnlive;
+          St(WnState(it), WAKEUP);                               \* uatomic_store(&wait->state, WAKEUP, RELEASE)
+k_ld2:    assert it \in wnlive;
+          Ld(st, WnState(it));
           if (HasBit(st, RUNNING)) { goto k_or } else if (FutexMode = "compat") { goto kn_mb };
 k_fw:     await Drained(self);                                   \* futex_noasync(&wait->state, FUTEX_WAKE, 1)
           if (FutexMode = "futex") {
@@ -301,7 +327,8 @@ kn_bc:    await Drained(self);                                   \* pthread_cond
           woken := [t \in Threads |-> IF sleeping[t] = "compat_cond" THEN TRUE ELSE woken[t]];
           acc := Ev(self, "cbroadcast", "-", "-", "-", "-");
 kn_unl:   Unlock("compat_lock");
-k_or:     await Drained(self);                                   \* uatomic_or_mo(&wait->state, TEARDOWN, RELEASE)
+k_or:     assert it \in wnlive;
+          await Drained(self);                                   \* uatomic_or_mo(&wait->state, TEARDOWN, RELEASE)
           mem[WnState(it)] := OrBit(mem[WnState(it)], TEARDOWN) ||
           acc := Ev(self, "or", WnState(it), TEARDOWN, "-", OrBit(mem[WnState(it)], TEARDOWN));
           it := nx; goto k_top;
@@ -315,10 +342,9 @@ a_fw:     await Drained(self);                                   \* futex_noasyn
           if (FutexMode # "futex") { acc := Ev(self, "fwait", WnState(Wn(self)), "-", "-", "ENOSYS"); goto ac_mb }   \* Linux: ENOSYS -> compat_futex_async()
           else if (mem[WnState(Wn(self))] # WAITING) { acc := Ev(self, "fwait", WnState(Wn(self)), WAITING, "-", "EAGAIN"); goto a_or }
           else { sleeping[self] := WnState(Wn(self)); woken[self] := FALSE; acc := Ev(self, "fwait", WnState(Wn(self)), WAITING, "-", "SLEEP") };
-a_wk:     either { await woken[self]; acc := Ev(self, "fwoke", WnState(Wn(self)), "-", "-", "WAKE") }
-          or { await ~woken[self] /\ faults < FaultBudget; faults := faults + 1; acc := Ev(self, "fwoke", WnState(Wn(self)), "-", "-", "SPURIOUS") }
-          or { await ~woken[self] /\ faults < FaultBudget; faults := faults + 1; acc := Ev(self, "fwoke", WnState(Wn(self)), "-", "-", "EINTR") };
-          sleeping[self] := "none"; woken[self] := FALSE;
+a_wk:     await woken[self];                                     \* woken by FUTEX_WAKE or by a fault (faulter)
+          acc := Ev(self, "fwoke", WnState(Wn(self)), "-", "-", wkind[self]);
+          sleeping[self] := "none"; woken[self] := FALSE; wkind[self] := "WAKE";
           goto a_ld2;
         \* compat_futex_async(FUTEX_WAIT): mb; while (uatomic_load(uaddr) == val) poll(NULL, 0, 10); return 0 -> "continue"
 ac_mb:    Mb();
@@ -332,9 +358,8 @@ an_ld:    Ld(st, WnState(Wn(self)));
 an_cw:    await Drained(self);                                   \* pthread_cond_wait: atomically release the mutex and sleep
           lock["compat_lock"] := "free"; sleeping[self] := "compat_cond"; woken[self] := FALSE;
           acc := Ev(self, "cwait", "compat_lock", "-", "-", "-");
-an_cwk:   either { await woken[self] }                           \* broadcast ...
-          or { await ~woken[self] /\ faults < FaultBudget; faults := faults + 1 };   \* ... or spurious wake-up (POSIX allows it)
-          sleeping[self] := "none"; woken[self] := FALSE;
+an_cwk:   await woken[self];                                     \* broadcast, or spurious wake-up (POSIX allows it; faulter)
+          sleeping[self] := "none"; woken[self] := FALSE; wkind[self] := "WAKE";
 an_relk:  await Drained(self) /\ lock["compat_lock"] = "free";   \* re-acquire the mutex before pthread_cond_wait returns
           lock["compat_lock"] := self; acc := Ev(self, "cwoke", "compat_lock", "-", "-", "-");
           goto an_ld;
@@ -354,6 +379,7 @@ a_ld5:    Ld(st, WnState(Wn(self)));                             \* assert(state
 
 s_ret:    assert pre[self] \cap OpenCS = {};                     \* C01: every pre-existing critical section has ended
           mem[WnNext(Wn(self))] := NULL || mem[WnState(Wn(self))] := 0;   \* the stack wait node dies; next call re-initialises it
+          wnlive := wnlive \ {Wn(self)};
           pre[self] := {};
           goto t_ret;
 
@@ -392,10 +418,9 @@ wg_fw:    await Drained(self);                                   \* futex_async(
           if (FutexMode # "futex") { acc := Ev(self, "fwait", "gp_futex", "-", "-", "ENOSYS"); goto wgc_mb }   \* ENOSYS -> compat_futex_async()
           else if (mem["gp_futex"] # -1) { acc := Ev(self, "fwait", "gp_futex", -1, "-", "EAGAIN"); goto wg_lock }
           else { sleeping[self] := "gp_futex"; woken[self] := FALSE; acc := Ev(self, "fwait", "gp_futex", -1, "-", "SLEEP") };
-wg_wk:    either { await woken[self]; acc := Ev(self, "fwoke", "gp_futex", "-", "-", "WAKE") }
-          or { await ~woken[self] /\ faults < FaultBudget; faults := faults + 1; acc := Ev(self, "fwoke", "gp_futex", "-", "-", "SPURIOUS") }
-          or { await ~woken[self] /\ faults < FaultBudget; faults := faults + 1; acc := Ev(self, "fwoke", "gp_futex", "-", "-", "EINTR") };
-          sleeping[self] := "none"; woken[self] := FALSE;
+wg_wk:    await woken[self];                                     \* woken by FUTEX_WAKE or by a fault (faulter)
+          acc := Ev(self, "fwoke", "gp_futex", "-", "-", wkind[self]);
+          sleeping[self] := "none"; woken[self] := FALSE; wkind[self] := "WAKE";
           goto wg_ld;
         \* compat_futex_async(FUTEX_WAIT): mb; while (uatomic_load(uaddr) == val) poll(NULL, 0, 10); return 0 -> "continue"
 wgc_mb:   Mb();
@@ -422,8 +447,9 @@ t_end:  skip;
 }
 } *)
 \* BEGIN TRANSLATION
-VARIABLES pc, mem, sb, lock, acc, registry, cursnap, qsr, regd, sleeping, 
-          woken, faults, sigs, myctr, insig, hcs, alive, cs, pre
+VARIABLES pc, mem, sb, lock, acc, registry, cursnap, qsr, wnlive, regd, 
+          sleeping, woken, wkind, faults, sigs, myctr, insig, hcs, alive, cs, 
+          pre
 
 (* define statement *)
 LastIdx(t, loc) == LET S == {i \in DOMAIN sb[t] : sb[t][i][1] = loc} IN
@@ -436,12 +462,13 @@ OpenCS == {<<t, cs[t]>> : t \in {x \in Threads : cs[x] # 0}} \cup {<<t, hcs[t]>>
 VARIABLES T, htmp, hg, hf, hheld, entry, i, op, res, tmp, g, f, held, old, 
           oldh, popped, it, nx, st, wi, wl, ph, scan, v, ipi, ret, mret
 
-vars == << pc, mem, sb, lock, acc, registry, cursnap, qsr, regd, sleeping, 
-           woken, faults, sigs, myctr, insig, hcs, alive, cs, pre, T, htmp, 
-           hg, hf, hheld, entry, i, op, res, tmp, g, f, held, old, oldh, 
-           popped, it, nx, st, wi, wl, ph, scan, v, ipi, ret, mret >>
+vars == << pc, mem, sb, lock, acc, registry, cursnap, qsr, wnlive, regd, 
+           sleeping, woken, wkind, faults, sigs, myctr, insig, hcs, alive, cs, 
+           pre, T, htmp, hg, hf, hheld, entry, i, op, res, tmp, g, f, held, 
+           old, oldh, popped, it, nx, st, wi, wl, ph, scan, v, ipi, ret, mret
+        >>
 
-ProcSet == (Flushers) \cup (SigIds) \cup (Threads)
+ProcSet == (Flushers) \cup (FaultIds) \cup (SigIds) \cup (Threads)
 
 Init == (* Global variables *)
         /\ mem = [l \in Locs |-> CASE l = "gp_ctr" -> 1 [] l = "gp_futex" -> 0 [] l = "gptr" -> "obj0" [] l = "waiters" -> END
@@ -452,9 +479,11 @@ Init == (* Global variables *)
         /\ registry = {}
         /\ cursnap = {}
         /\ qsr = {}
+        /\ wnlive = {}
         /\ regd = {}
         /\ sleeping = [t \in Threads |-> "none"]
         /\ woken = [t \in Threads |-> FALSE]
+        /\ wkind = [t \in Threads |-> "WAKE"]
         /\ faults = 0
         /\ sigs = 0
         /\ myctr = [t \in Threads |-> 0]
@@ -493,6 +522,7 @@ Init == (* Global variables *)
         /\ ret = [self \in Threads |-> ""]
         /\ mret = [self \in Threads |-> ""]
         /\ pc = [self \in ProcSet |-> CASE self \in Flushers -> "fl"
+                                        [] self \in FaultIds -> "w_f"
                                         [] self \in SigIds -> "h_idle"
                                         [] self \in Threads -> "t_top"]
 
@@ -503,25 +533,45 @@ fl(self) == /\ pc[self] = "fl"
                /\ mem' = [mem EXCEPT ![Head(sb[FlOf[self]])[1]] = Head(sb[FlOf[self]])[2]]
                /\ sb' = [sb EXCEPT ![FlOf[self]] = Tail(sb[FlOf[self]])]
             /\ pc' = [pc EXCEPT ![self] = "fl"]
-            /\ UNCHANGED << lock, registry, cursnap, qsr, regd, sleeping, 
-                            woken, faults, sigs, myctr, insig, hcs, alive, cs, 
-                            pre, T, htmp, hg, hf, hheld, entry, i, op, res, 
-                            tmp, g, f, held, old, oldh, popped, it, nx, st, wi, 
-                            wl, ph, scan, v, ipi, ret, mret >>
+            /\ UNCHANGED << lock, registry, cursnap, qsr, wnlive, regd, 
+                            sleeping, woken, wkind, faults, sigs, myctr, insig, 
+                            hcs, alive, cs, pre, T, htmp, hg, hf, hheld, entry, 
+                            i, op, res, tmp, g, f, held, old, oldh, popped, it, 
+                            nx, st, wi, wl, ph, scan, v, ipi, ret, mret >>
 
 flusher(self) == fl(self)
 
+w_f(self) == /\ pc[self] = "w_f"
+             /\ faults < FaultBudget /\ sleeping[WOf[self]] # "none" /\ ~woken[WOf[self]]
+             /\ \E k \in IF sleeping[WOf[self]] = "compat_cond" THEN {"SPURIOUS"} ELSE {"SPURIOUS", "EINTR"}:
+                  /\ /\ wkind' = [wkind EXCEPT ![WOf[self]] = k]
+                     /\ woken' = [woken EXCEPT ![WOf[self]] = TRUE]
+                  /\ faults' = faults + 1
+             /\ pc' = [pc EXCEPT ![self] = "w_f"]
+             /\ UNCHANGED << mem, sb, lock, acc, registry, cursnap, qsr, 
+                             wnlive, regd, sleeping, sigs, myctr, insig, hcs, 
+                             alive, cs, pre, T, htmp, hg, hf, hheld, entry, i, 
+                             op, res, tmp, g, f, held, old, oldh, popped, it, 
+                             nx, st, wi, wl, ph, scan, v, ipi, ret, mret >>
+
+faulter(self) == w_f(self)
+
 h_idle(self) == /\ pc[self] = "h_idle"
                 /\ sigs < SigBudget /\ ~insig[T[self]] /\ T[self] \in registry \cup cursnap \cup qsr /\ pc[T[self]] \notin {"Done", "t_end", "x_lock", "x_del", "x_unl"}
-                   /\ sleeping[T[self]] = "none"
+                   /\ (sleeping[T[self]] = "none" \/ (SigFutex /\ sleeping[T[self]] # "compat_cond" /\ ~woken[T[self]]))
                    /\ Drained(T[self])
                 /\ sigs' = sigs + 1
                 /\ insig' = [insig EXCEPT ![T[self]] = TRUE]
                 /\ entry' = [entry EXCEPT ![self] = myctr[T[self]]]
+                /\ IF sleeping[T[self]] # "none"
+                      THEN /\ /\ wkind' = [wkind EXCEPT ![T[self]] = "EINTR"]
+                              /\ woken' = [woken EXCEPT ![T[self]] = TRUE]
+                      ELSE /\ TRUE
+                           /\ UNCHANGED << woken, wkind >>
                 /\ acc' = Ev(T[self], "sig_enter", "-", "-", "-", "-")
                 /\ pc' = [pc EXCEPT ![self] = "h_ltop"]
-                /\ UNCHANGED << mem, sb, lock, registry, cursnap, qsr, regd, 
-                                sleeping, woken, faults, myctr, hcs, alive, cs, 
+                /\ UNCHANGED << mem, sb, lock, registry, cursnap, qsr, wnlive, 
+                                regd, sleeping, faults, myctr, hcs, alive, cs, 
                                 pre, T, htmp, hg, hf, hheld, i, op, res, tmp, 
                                 g, f, held, old, oldh, popped, it, nx, st, wi, 
                                 wl, ph, scan, v, ipi, ret, mret >>
@@ -532,21 +582,22 @@ h_ltop(self) == /\ pc[self] = "h_ltop"
                       THEN /\ pc' = [pc EXCEPT ![self] = "h_lnest"]
                       ELSE /\ pc' = [pc EXCEPT ![self] = "h_lld"]
                 /\ UNCHANGED << mem, sb, lock, acc, registry, cursnap, qsr, 
-                                regd, sleeping, woken, faults, sigs, myctr, 
-                                insig, hcs, alive, cs, pre, T, hg, hf, hheld, 
-                                entry, i, op, res, tmp, g, f, held, old, oldh, 
-                                popped, it, nx, st, wi, wl, ph, scan, v, ipi, 
-                                ret, mret >>
+                                wnlive, regd, sleeping, woken, wkind, faults, 
+                                sigs, myctr, insig, hcs, alive, cs, pre, T, hg, 
+                                hf, hheld, entry, i, op, res, tmp, g, f, held, 
+                                old, oldh, popped, it, nx, st, wi, wl, ph, 
+                                scan, v, ipi, ret, mret >>
 
 h_lld(self) == /\ pc[self] = "h_lld"
                /\ hg' = [hg EXCEPT ![self] = Rd(T[self], "gp_ctr")]
                /\ acc' = Ev(T[self], "ld", "gp_ctr", "-", "-", Rd(T[self], "gp_ctr"))
                /\ pc' = [pc EXCEPT ![self] = "h_lst"]
-               /\ UNCHANGED << mem, sb, lock, registry, cursnap, qsr, regd, 
-                               sleeping, woken, faults, sigs, myctr, insig, 
-                               hcs, alive, cs, pre, T, htmp, hf, hheld, entry, 
-                               i, op, res, tmp, g, f, held, old, oldh, popped, 
-                               it, nx, st, wi, wl, ph, scan, v, ipi, ret, mret >>
+               /\ UNCHANGED << mem, sb, lock, registry, cursnap, qsr, wnlive, 
+                               regd, sleeping, woken, wkind, faults, sigs, 
+                               myctr, insig, hcs, alive, cs, pre, T, htmp, hf, 
+                               hheld, entry, i, op, res, tmp, g, f, held, old, 
+                               oldh, popped, it, nx, st, wi, wl, ph, scan, v, 
+                               ipi, ret, mret >>
 
 h_lst(self) == /\ pc[self] = "h_lst"
                /\ IF TSO
@@ -558,11 +609,12 @@ h_lst(self) == /\ pc[self] = "h_lst"
                /\ acc' = Ev(T[self], "st", (Rctr(T[self])), hg[self], "-", "-")
                /\ myctr' = [myctr EXCEPT ![T[self]] = hg[self]]
                /\ pc' = [pc EXCEPT ![self] = "h_lmb"]
-               /\ UNCHANGED << lock, registry, cursnap, qsr, regd, sleeping, 
-                               woken, faults, sigs, insig, hcs, alive, cs, pre, 
-                               T, htmp, hg, hf, hheld, entry, i, op, res, tmp, 
-                               g, f, held, old, oldh, popped, it, nx, st, wi, 
-                               wl, ph, scan, v, ipi, ret, mret >>
+               /\ UNCHANGED << lock, registry, cursnap, qsr, wnlive, regd, 
+                               sleeping, woken, wkind, faults, sigs, insig, 
+                               hcs, alive, cs, pre, T, htmp, hg, hf, hheld, 
+                               entry, i, op, res, tmp, g, f, held, old, oldh, 
+                               popped, it, nx, st, wi, wl, ph, scan, v, ipi, 
+                               ret, mret >>
 
 h_lmb(self) == /\ pc[self] = "h_lmb"
                /\ IF ReaderFence /\ "rl_mb" \notin Skip
@@ -571,12 +623,12 @@ h_lmb(self) == /\ pc[self] = "h_lmb"
                      ELSE /\ TRUE
                           /\ acc' = acc
                /\ pc' = [pc EXCEPT ![self] = "h_lin"]
-               /\ UNCHANGED << mem, sb, lock, registry, cursnap, qsr, regd, 
-                               sleeping, woken, faults, sigs, myctr, insig, 
-                               hcs, alive, cs, pre, T, htmp, hg, hf, hheld, 
-                               entry, i, op, res, tmp, g, f, held, old, oldh, 
-                               popped, it, nx, st, wi, wl, ph, scan, v, ipi, 
-                               ret, mret >>
+               /\ UNCHANGED << mem, sb, lock, registry, cursnap, qsr, wnlive, 
+                               regd, sleeping, woken, wkind, faults, sigs, 
+                               myctr, insig, hcs, alive, cs, pre, T, htmp, hg, 
+                               hf, hheld, entry, i, op, res, tmp, g, f, held, 
+                               old, oldh, popped, it, nx, st, wi, wl, ph, scan, 
+                               v, ipi, ret, mret >>
 
 h_lin(self) == /\ pc[self] = "h_lin"
                /\ IF cs[T[self]] = 0
@@ -585,11 +637,11 @@ h_lin(self) == /\ pc[self] = "h_lin"
                           /\ hcs' = hcs
                /\ pc' = [pc EXCEPT ![self] = "h_deref"]
                /\ UNCHANGED << mem, sb, lock, acc, registry, cursnap, qsr, 
-                               regd, sleeping, woken, faults, sigs, myctr, 
-                               insig, alive, cs, pre, T, htmp, hg, hf, hheld, 
-                               entry, i, op, res, tmp, g, f, held, old, oldh, 
-                               popped, it, nx, st, wi, wl, ph, scan, v, ipi, 
-                               ret, mret >>
+                               wnlive, regd, sleeping, woken, wkind, faults, 
+                               sigs, myctr, insig, alive, cs, pre, T, htmp, hg, 
+                               hf, hheld, entry, i, op, res, tmp, g, f, held, 
+                               old, oldh, popped, it, nx, st, wi, wl, ph, scan, 
+                               v, ipi, ret, mret >>
 
 h_lnest(self) == /\ pc[self] = "h_lnest"
                  /\ IF TSO
@@ -601,33 +653,34 @@ h_lnest(self) == /\ pc[self] = "h_lnest"
                  /\ acc' = Ev(T[self], "st", (Rctr(T[self])), (htmp[self] + 1), "-", "-")
                  /\ myctr' = [myctr EXCEPT ![T[self]] = htmp[self] + 1]
                  /\ pc' = [pc EXCEPT ![self] = "h_deref"]
-                 /\ UNCHANGED << lock, registry, cursnap, qsr, regd, sleeping, 
-                                 woken, faults, sigs, insig, hcs, alive, cs, 
-                                 pre, T, htmp, hg, hf, hheld, entry, i, op, 
-                                 res, tmp, g, f, held, old, oldh, popped, it, 
-                                 nx, st, wi, wl, ph, scan, v, ipi, ret, mret >>
+                 /\ UNCHANGED << lock, registry, cursnap, qsr, wnlive, regd, 
+                                 sleeping, woken, wkind, faults, sigs, insig, 
+                                 hcs, alive, cs, pre, T, htmp, hg, hf, hheld, 
+                                 entry, i, op, res, tmp, g, f, held, old, oldh, 
+                                 popped, it, nx, st, wi, wl, ph, scan, v, ipi, 
+                                 ret, mret >>
 
 h_deref(self) == /\ pc[self] = "h_deref"
                  /\ hheld' = [hheld EXCEPT ![self] = Rd(T[self], "gptr")]
                  /\ acc' = Ev(T[self], "ld", "gptr", "-", "-", Rd(T[self], "gptr"))
                  /\ pc' = [pc EXCEPT ![self] = "h_use"]
-                 /\ UNCHANGED << mem, sb, lock, registry, cursnap, qsr, regd, 
-                                 sleeping, woken, faults, sigs, myctr, insig, 
-                                 hcs, alive, cs, pre, T, htmp, hg, hf, entry, 
-                                 i, op, res, tmp, g, f, held, old, oldh, 
-                                 popped, it, nx, st, wi, wl, ph, scan, v, ipi, 
-                                 ret, mret >>
+                 /\ UNCHANGED << mem, sb, lock, registry, cursnap, qsr, wnlive, 
+                                 regd, sleeping, woken, wkind, faults, sigs, 
+                                 myctr, insig, hcs, alive, cs, pre, T, htmp, 
+                                 hg, hf, entry, i, op, res, tmp, g, f, held, 
+                                 old, oldh, popped, it, nx, st, wi, wl, ph, 
+                                 scan, v, ipi, ret, mret >>
 
 h_use(self) == /\ pc[self] = "h_use"
                /\ Assert(hheld[self] = NULL \/ alive[hheld[self]], 
-                         "Failure of assertion at line 141, column 11.")
+                         "Failure of assertion at line 161, column 11.")
                /\ pc' = [pc EXCEPT ![self] = "h_utop"]
                /\ UNCHANGED << mem, sb, lock, acc, registry, cursnap, qsr, 
-                               regd, sleeping, woken, faults, sigs, myctr, 
-                               insig, hcs, alive, cs, pre, T, htmp, hg, hf, 
-                               hheld, entry, i, op, res, tmp, g, f, held, old, 
-                               oldh, popped, it, nx, st, wi, wl, ph, scan, v, 
-                               ipi, ret, mret >>
+                               wnlive, regd, sleeping, woken, wkind, faults, 
+                               sigs, myctr, insig, hcs, alive, cs, pre, T, 
+                               htmp, hg, hf, hheld, entry, i, op, res, tmp, g, 
+                               f, held, old, oldh, popped, it, nx, st, wi, wl, 
+                               ph, scan, v, ipi, ret, mret >>
 
 h_utop(self) == /\ pc[self] = "h_utop"
                 /\ htmp' = [htmp EXCEPT ![self] = myctr[T[self]]]
@@ -635,22 +688,22 @@ h_utop(self) == /\ pc[self] = "h_utop"
                       THEN /\ pc' = [pc EXCEPT ![self] = "h_unest"]
                       ELSE /\ pc' = [pc EXCEPT ![self] = "h_uout"]
                 /\ UNCHANGED << mem, sb, lock, acc, registry, cursnap, qsr, 
-                                regd, sleeping, woken, faults, sigs, myctr, 
-                                insig, hcs, alive, cs, pre, T, hg, hf, hheld, 
-                                entry, i, op, res, tmp, g, f, held, old, oldh, 
-                                popped, it, nx, st, wi, wl, ph, scan, v, ipi, 
-                                ret, mret >>
+                                wnlive, regd, sleeping, woken, wkind, faults, 
+                                sigs, myctr, insig, hcs, alive, cs, pre, T, hg, 
+                                hf, hheld, entry, i, op, res, tmp, g, f, held, 
+                                old, oldh, popped, it, nx, st, wi, wl, ph, 
+                                scan, v, ipi, ret, mret >>
 
 h_uout(self) == /\ pc[self] = "h_uout"
                 /\ hcs' = [hcs EXCEPT ![T[self]] = 0]
                 /\ hheld' = [hheld EXCEPT ![self] = NULL]
                 /\ pc' = [pc EXCEPT ![self] = "h_umb1"]
                 /\ UNCHANGED << mem, sb, lock, acc, registry, cursnap, qsr, 
-                                regd, sleeping, woken, faults, sigs, myctr, 
-                                insig, alive, cs, pre, T, htmp, hg, hf, entry, 
-                                i, op, res, tmp, g, f, held, old, oldh, popped, 
-                                it, nx, st, wi, wl, ph, scan, v, ipi, ret, 
-                                mret >>
+                                wnlive, regd, sleeping, woken, wkind, faults, 
+                                sigs, myctr, insig, alive, cs, pre, T, htmp, 
+                                hg, hf, entry, i, op, res, tmp, g, f, held, 
+                                old, oldh, popped, it, nx, st, wi, wl, ph, 
+                                scan, v, ipi, ret, mret >>
 
 h_umb1(self) == /\ pc[self] = "h_umb1"
                 /\ IF Flavor = "memb" /\ ReaderFence /\ "ru_mb1" \notin Skip
@@ -659,12 +712,12 @@ h_umb1(self) == /\ pc[self] = "h_umb1"
                       ELSE /\ TRUE
                            /\ acc' = acc
                 /\ pc' = [pc EXCEPT ![self] = "h_ust"]
-                /\ UNCHANGED << mem, sb, lock, registry, cursnap, qsr, regd, 
-                                sleeping, woken, faults, sigs, myctr, insig, 
-                                hcs, alive, cs, pre, T, htmp, hg, hf, hheld, 
-                                entry, i, op, res, tmp, g, f, held, old, oldh, 
-                                popped, it, nx, st, wi, wl, ph, scan, v, ipi, 
-                                ret, mret >>
+                /\ UNCHANGED << mem, sb, lock, registry, cursnap, qsr, wnlive, 
+                                regd, sleeping, woken, wkind, faults, sigs, 
+                                myctr, insig, hcs, alive, cs, pre, T, htmp, hg, 
+                                hf, hheld, entry, i, op, res, tmp, g, f, held, 
+                                old, oldh, popped, it, nx, st, wi, wl, ph, 
+                                scan, v, ipi, ret, mret >>
 
 h_ust(self) == /\ pc[self] = "h_ust"
                /\ IF Flavor = "mb" /\ "ru_st" \notin Weak
@@ -681,11 +734,12 @@ h_ust(self) == /\ pc[self] = "h_ust"
                           /\ acc' = Ev(T[self], "st", (Rctr(T[self])), (htmp[self] - 1), "-", "-")
                /\ myctr' = [myctr EXCEPT ![T[self]] = htmp[self] - 1]
                /\ pc' = [pc EXCEPT ![self] = "h_umb2"]
-               /\ UNCHANGED << lock, registry, cursnap, qsr, regd, sleeping, 
-                               woken, faults, sigs, insig, hcs, alive, cs, pre, 
-                               T, htmp, hg, hf, hheld, entry, i, op, res, tmp, 
-                               g, f, held, old, oldh, popped, it, nx, st, wi, 
-                               wl, ph, scan, v, ipi, ret, mret >>
+               /\ UNCHANGED << lock, registry, cursnap, qsr, wnlive, regd, 
+                               sleeping, woken, wkind, faults, sigs, insig, 
+                               hcs, alive, cs, pre, T, htmp, hg, hf, hheld, 
+                               entry, i, op, res, tmp, g, f, held, old, oldh, 
+                               popped, it, nx, st, wi, wl, ph, scan, v, ipi, 
+                               ret, mret >>
 
 h_umb2(self) == /\ pc[self] = "h_umb2"
                 /\ IF Flavor = "memb" /\ ReaderFence /\ "ru_mb2" \notin Skip
@@ -694,12 +748,12 @@ h_umb2(self) == /\ pc[self] = "h_umb2"
                       ELSE /\ TRUE
                            /\ acc' = acc
                 /\ pc' = [pc EXCEPT ![self] = "h_uldf"]
-                /\ UNCHANGED << mem, sb, lock, registry, cursnap, qsr, regd, 
-                                sleeping, woken, faults, sigs, myctr, insig, 
-                                hcs, alive, cs, pre, T, htmp, hg, hf, hheld, 
-                                entry, i, op, res, tmp, g, f, held, old, oldh, 
-                                popped, it, nx, st, wi, wl, ph, scan, v, ipi, 
-                                ret, mret >>
+                /\ UNCHANGED << mem, sb, lock, registry, cursnap, qsr, wnlive, 
+                                regd, sleeping, woken, wkind, faults, sigs, 
+                                myctr, insig, hcs, alive, cs, pre, T, htmp, hg, 
+                                hf, hheld, entry, i, op, res, tmp, g, f, held, 
+                                old, oldh, popped, it, nx, st, wi, wl, ph, 
+                                scan, v, ipi, ret, mret >>
 
 h_uldf(self) == /\ pc[self] = "h_uldf"
                 /\ hf' = [hf EXCEPT ![self] = Rd(T[self], "gp_futex")]
@@ -707,12 +761,12 @@ h_uldf(self) == /\ pc[self] = "h_uldf"
                 /\ IF hf'[self] # -1
                       THEN /\ pc' = [pc EXCEPT ![self] = "h_ret"]
                       ELSE /\ pc' = [pc EXCEPT ![self] = "h_ustf"]
-                /\ UNCHANGED << mem, sb, lock, registry, cursnap, qsr, regd, 
-                                sleeping, woken, faults, sigs, myctr, insig, 
-                                hcs, alive, cs, pre, T, htmp, hg, hheld, entry, 
-                                i, op, res, tmp, g, f, held, old, oldh, popped, 
-                                it, nx, st, wi, wl, ph, scan, v, ipi, ret, 
-                                mret >>
+                /\ UNCHANGED << mem, sb, lock, registry, cursnap, qsr, wnlive, 
+                                regd, sleeping, woken, wkind, faults, sigs, 
+                                myctr, insig, hcs, alive, cs, pre, T, htmp, hg, 
+                                hheld, entry, i, op, res, tmp, g, f, held, old, 
+                                oldh, popped, it, nx, st, wi, wl, ph, scan, v, 
+                                ipi, ret, mret >>
 
 h_ustf(self) == /\ pc[self] = "h_ustf"
                 /\ IF TSO
@@ -725,11 +779,12 @@ h_ustf(self) == /\ pc[self] = "h_ustf"
                 /\ IF FutexMode = "compat"
                       THEN /\ pc' = [pc EXCEPT ![self] = "h_cmb"]
                       ELSE /\ pc' = [pc EXCEPT ![self] = "h_uwake"]
-                /\ UNCHANGED << lock, registry, cursnap, qsr, regd, sleeping, 
-                                woken, faults, sigs, myctr, insig, hcs, alive, 
-                                cs, pre, T, htmp, hg, hf, hheld, entry, i, op, 
-                                res, tmp, g, f, held, old, oldh, popped, it, 
-                                nx, st, wi, wl, ph, scan, v, ipi, ret, mret >>
+                /\ UNCHANGED << lock, registry, cursnap, qsr, wnlive, regd, 
+                                sleeping, woken, wkind, faults, sigs, myctr, 
+                                insig, hcs, alive, cs, pre, T, htmp, hg, hf, 
+                                hheld, entry, i, op, res, tmp, g, f, held, old, 
+                                oldh, popped, it, nx, st, wi, wl, ph, scan, v, 
+                                ipi, ret, mret >>
 
 h_uwake(self) == /\ pc[self] = "h_uwake"
                  /\ Drained(T[self])
@@ -745,23 +800,23 @@ h_uwake(self) == /\ pc[self] = "h_uwake"
                        ELSE /\ acc' = Ev(T[self], "fwake", "gp_futex", "-", "-", "ENOSYS")
                             /\ pc' = [pc EXCEPT ![self] = "h_cmb"]
                             /\ woken' = woken
-                 /\ UNCHANGED << mem, sb, lock, registry, cursnap, qsr, regd, 
-                                 sleeping, faults, sigs, myctr, insig, hcs, 
-                                 alive, cs, pre, T, htmp, hg, hf, hheld, entry, 
-                                 i, op, res, tmp, g, f, held, old, oldh, 
-                                 popped, it, nx, st, wi, wl, ph, scan, v, ipi, 
-                                 ret, mret >>
+                 /\ UNCHANGED << mem, sb, lock, registry, cursnap, qsr, wnlive, 
+                                 regd, sleeping, wkind, faults, sigs, myctr, 
+                                 insig, hcs, alive, cs, pre, T, htmp, hg, hf, 
+                                 hheld, entry, i, op, res, tmp, g, f, held, 
+                                 old, oldh, popped, it, nx, st, wi, wl, ph, 
+                                 scan, v, ipi, ret, mret >>
 
 h_cmb(self) == /\ pc[self] = "h_cmb"
                /\ Drained(T[self])
                /\ acc' = Ev(T[self], "mb", "-", "-", "-", "-")
                /\ pc' = [pc EXCEPT ![self] = "h_ret"]
-               /\ UNCHANGED << mem, sb, lock, registry, cursnap, qsr, regd, 
-                               sleeping, woken, faults, sigs, myctr, insig, 
-                               hcs, alive, cs, pre, T, htmp, hg, hf, hheld, 
-                               entry, i, op, res, tmp, g, f, held, old, oldh, 
-                               popped, it, nx, st, wi, wl, ph, scan, v, ipi, 
-                               ret, mret >>
+               /\ UNCHANGED << mem, sb, lock, registry, cursnap, qsr, wnlive, 
+                               regd, sleeping, woken, wkind, faults, sigs, 
+                               myctr, insig, hcs, alive, cs, pre, T, htmp, hg, 
+                               hf, hheld, entry, i, op, res, tmp, g, f, held, 
+                               old, oldh, popped, it, nx, st, wi, wl, ph, scan, 
+                               v, ipi, ret, mret >>
 
 h_unest(self) == /\ pc[self] = "h_unest"
                  /\ IF TSO
@@ -774,24 +829,26 @@ h_unest(self) == /\ pc[self] = "h_unest"
                  /\ myctr' = [myctr EXCEPT ![T[self]] = htmp[self] - 1]
                  /\ hheld' = [hheld EXCEPT ![self] = NULL]
                  /\ pc' = [pc EXCEPT ![self] = "h_ret"]
-                 /\ UNCHANGED << lock, registry, cursnap, qsr, regd, sleeping, 
-                                 woken, faults, sigs, insig, hcs, alive, cs, 
-                                 pre, T, htmp, hg, hf, entry, i, op, res, tmp, 
-                                 g, f, held, old, oldh, popped, it, nx, st, wi, 
-                                 wl, ph, scan, v, ipi, ret, mret >>
+                 /\ UNCHANGED << lock, registry, cursnap, qsr, wnlive, regd, 
+                                 sleeping, woken, wkind, faults, sigs, insig, 
+                                 hcs, alive, cs, pre, T, htmp, hg, hf, entry, 
+                                 i, op, res, tmp, g, f, held, old, oldh, 
+                                 popped, it, nx, st, wi, wl, ph, scan, v, ipi, 
+                                 ret, mret >>
 
 h_ret(self) == /\ pc[self] = "h_ret"
                /\ Assert(Nest(myctr[T[self]]) = Nest(entry[self]) /\ (Nest(entry[self]) # 0 => myctr[T[self]] = entry[self]), 
-                         "Failure of assertion at line 166, column 11.")
+                         "Failure of assertion at line 186, column 11.")
                /\ Drained(T[self])
                /\ insig' = [insig EXCEPT ![T[self]] = FALSE]
                /\ acc' = Ev(T[self], "sig_exit", "-", "-", "-", "-")
                /\ pc' = [pc EXCEPT ![self] = "h_idle"]
-               /\ UNCHANGED << mem, sb, lock, registry, cursnap, qsr, regd, 
-                               sleeping, woken, faults, sigs, myctr, hcs, 
-                               alive, cs, pre, T, htmp, hg, hf, hheld, entry, 
-                               i, op, res, tmp, g, f, held, old, oldh, popped, 
-                               it, nx, st, wi, wl, ph, scan, v, ipi, ret, mret >>
+               /\ UNCHANGED << mem, sb, lock, registry, cursnap, qsr, wnlive, 
+                               regd, sleeping, woken, wkind, faults, sigs, 
+                               myctr, hcs, alive, cs, pre, T, htmp, hg, hf, 
+                               hheld, entry, i, op, res, tmp, g, f, held, old, 
+                               oldh, popped, it, nx, st, wi, wl, ph, scan, v, 
+                               ipi, ret, mret >>
 
 sig(self) == h_idle(self) \/ h_ltop(self) \/ h_lld(self) \/ h_lst(self)
                 \/ h_lmb(self) \/ h_lin(self) \/ h_lnest(self)
@@ -809,11 +866,11 @@ t_top(self) == /\ pc[self] = "t_top"
                      ELSE /\ pc' = [pc EXCEPT ![self] = "t_end"]
                           /\ UNCHANGED << op, res >>
                /\ UNCHANGED << mem, sb, lock, acc, registry, cursnap, qsr, 
-                               regd, sleeping, woken, faults, sigs, myctr, 
-                               insig, hcs, alive, cs, pre, T, htmp, hg, hf, 
-                               hheld, entry, i, tmp, g, f, held, old, oldh, 
-                               popped, it, nx, st, wi, wl, ph, scan, v, ipi, 
-                               ret, mret >>
+                               wnlive, regd, sleeping, woken, wkind, faults, 
+                               sigs, myctr, insig, hcs, alive, cs, pre, T, 
+                               htmp, hg, hf, hheld, entry, i, tmp, g, f, held, 
+                               old, oldh, popped, it, nx, st, wi, wl, ph, scan, 
+                               v, ipi, ret, mret >>
 
 t_disp(self) == /\ pc[self] = "t_disp"
                 /\ IF op[self].op = "reg"
@@ -838,7 +895,7 @@ t_disp(self) == /\ pc[self] = "t_disp"
                                                                                        old >>
                                                                   ELSE /\ IF op[self].op = "use"
                                                                              THEN /\ Assert(held[self] = NULL \/ alive[held[self]], 
-                                                                                            "Failure of assertion at line 187, column 37.")
+                                                                                            "Failure of assertion at line 207, column 37.")
                                                                                   /\ pc' = [pc EXCEPT ![self] = "t_ret"]
                                                                                   /\ UNCHANGED << alive, 
                                                                                                   res, 
@@ -863,60 +920,62 @@ t_disp(self) == /\ pc[self] = "t_disp"
                                                                                                                                    old >>
                                                                                                         /\ pc' = [pc EXCEPT ![self] = "t_ret"]
                 /\ UNCHANGED << mem, sb, lock, acc, registry, cursnap, qsr, 
-                                regd, sleeping, woken, faults, sigs, myctr, 
-                                insig, hcs, cs, pre, T, htmp, hg, hf, hheld, 
-                                entry, i, op, tmp, g, f, held, oldh, popped, 
-                                it, nx, st, wi, wl, ph, scan, v, ipi, ret, 
-                                mret >>
+                                wnlive, regd, sleeping, woken, wkind, faults, 
+                                sigs, myctr, insig, hcs, cs, pre, T, htmp, hg, 
+                                hf, hheld, entry, i, op, tmp, g, f, held, oldh, 
+                                popped, it, nx, st, wi, wl, ph, scan, v, ipi, 
+                                ret, mret >>
 
 g_lock(self) == /\ pc[self] = "g_lock"
                 /\ Assert(self \notin regd /\ Nest(myctr[self]) = 0, 
-                          "Failure of assertion at line 193, column 11.")
+                          "Failure of assertion at line 213, column 11.")
                 /\ Drained(self) /\ lock["registry_lock"] = "free"
                 /\ lock' = [lock EXCEPT !["registry_lock"] = self]
                 /\ acc' = Ev(self, "lock", "registry_lock", "-", "-", "-")
                 /\ pc' = [pc EXCEPT ![self] = "g_add"]
-                /\ UNCHANGED << mem, sb, registry, cursnap, qsr, regd, 
-                                sleeping, woken, faults, sigs, myctr, insig, 
-                                hcs, alive, cs, pre, T, htmp, hg, hf, hheld, 
-                                entry, i, op, res, tmp, g, f, held, old, oldh, 
-                                popped, it, nx, st, wi, wl, ph, scan, v, ipi, 
-                                ret, mret >>
+                /\ UNCHANGED << mem, sb, registry, cursnap, qsr, wnlive, regd, 
+                                sleeping, woken, wkind, faults, sigs, myctr, 
+                                insig, hcs, alive, cs, pre, T, htmp, hg, hf, 
+                                hheld, entry, i, op, res, tmp, g, f, held, old, 
+                                oldh, popped, it, nx, st, wi, wl, ph, scan, v, 
+                                ipi, ret, mret >>
 
 g_add(self) == /\ pc[self] = "g_add"
                /\ /\ regd' = (regd \cup {self})
                   /\ registry' = (registry \cup {self})
                /\ pc' = [pc EXCEPT ![self] = "g_unl"]
-               /\ UNCHANGED << mem, sb, lock, acc, cursnap, qsr, sleeping, 
-                               woken, faults, sigs, myctr, insig, hcs, alive, 
-                               cs, pre, T, htmp, hg, hf, hheld, entry, i, op, 
-                               res, tmp, g, f, held, old, oldh, popped, it, nx, 
-                               st, wi, wl, ph, scan, v, ipi, ret, mret >>
+               /\ UNCHANGED << mem, sb, lock, acc, cursnap, qsr, wnlive, 
+                               sleeping, woken, wkind, faults, sigs, myctr, 
+                               insig, hcs, alive, cs, pre, T, htmp, hg, hf, 
+                               hheld, entry, i, op, res, tmp, g, f, held, old, 
+                               oldh, popped, it, nx, st, wi, wl, ph, scan, v, 
+                               ipi, ret, mret >>
 
 g_unl(self) == /\ pc[self] = "g_unl"
                /\ Drained(self)
                /\ lock' = [lock EXCEPT !["registry_lock"] = "free"]
                /\ acc' = Ev(self, "unlock", "registry_lock", "-", "-", "-")
                /\ pc' = [pc EXCEPT ![self] = "t_ret"]
-               /\ UNCHANGED << mem, sb, registry, cursnap, qsr, regd, sleeping, 
-                               woken, faults, sigs, myctr, insig, hcs, alive, 
-                               cs, pre, T, htmp, hg, hf, hheld, entry, i, op, 
-                               res, tmp, g, f, held, old, oldh, popped, it, nx, 
-                               st, wi, wl, ph, scan, v, ipi, ret, mret >>
+               /\ UNCHANGED << mem, sb, registry, cursnap, qsr, wnlive, regd, 
+                               sleeping, woken, wkind, faults, sigs, myctr, 
+                               insig, hcs, alive, cs, pre, T, htmp, hg, hf, 
+                               hheld, entry, i, op, res, tmp, g, f, held, old, 
+                               oldh, popped, it, nx, st, wi, wl, ph, scan, v, 
+                               ipi, ret, mret >>
 
 x_lock(self) == /\ pc[self] = "x_lock"
                 /\ Assert(self \in regd /\ Nest(myctr[self]) = 0, 
-                          "Failure of assertion at line 198, column 11.")
+                          "Failure of assertion at line 218, column 11.")
                 /\ Drained(self) /\ lock["registry_lock"] = "free"
                 /\ lock' = [lock EXCEPT !["registry_lock"] = self]
                 /\ acc' = Ev(self, "lock", "registry_lock", "-", "-", "-")
                 /\ pc' = [pc EXCEPT ![self] = "x_del"]
-                /\ UNCHANGED << mem, sb, registry, cursnap, qsr, regd, 
-                                sleeping, woken, faults, sigs, myctr, insig, 
-                                hcs, alive, cs, pre, T, htmp, hg, hf, hheld, 
-                                entry, i, op, res, tmp, g, f, held, old, oldh, 
-                                popped, it, nx, st, wi, wl, ph, scan, v, ipi, 
-                                ret, mret >>
+                /\ UNCHANGED << mem, sb, registry, cursnap, qsr, wnlive, regd, 
+                                sleeping, woken, wkind, faults, sigs, myctr, 
+                                insig, hcs, alive, cs, pre, T, htmp, hg, hf, 
+                                hheld, entry, i, op, res, tmp, g, f, held, old, 
+                                oldh, popped, it, nx, st, wi, wl, ph, scan, v, 
+                                ipi, ret, mret >>
 
 x_del(self) == /\ pc[self] = "x_del"
                /\ /\ cursnap' = cursnap \ {self}
@@ -924,47 +983,48 @@ x_del(self) == /\ pc[self] = "x_del"
                   /\ regd' = regd \ {self}
                   /\ registry' = registry \ {self}
                /\ pc' = [pc EXCEPT ![self] = "x_unl"]
-               /\ UNCHANGED << mem, sb, lock, acc, sleeping, woken, faults, 
-                               sigs, myctr, insig, hcs, alive, cs, pre, T, 
-                               htmp, hg, hf, hheld, entry, i, op, res, tmp, g, 
-                               f, held, old, oldh, popped, it, nx, st, wi, wl, 
-                               ph, scan, v, ipi, ret, mret >>
+               /\ UNCHANGED << mem, sb, lock, acc, wnlive, sleeping, woken, 
+                               wkind, faults, sigs, myctr, insig, hcs, alive, 
+                               cs, pre, T, htmp, hg, hf, hheld, entry, i, op, 
+                               res, tmp, g, f, held, old, oldh, popped, it, nx, 
+                               st, wi, wl, ph, scan, v, ipi, ret, mret >>
 
 x_unl(self) == /\ pc[self] = "x_unl"
                /\ Drained(self)
                /\ lock' = [lock EXCEPT !["registry_lock"] = "free"]
                /\ acc' = Ev(self, "unlock", "registry_lock", "-", "-", "-")
                /\ pc' = [pc EXCEPT ![self] = "t_ret"]
-               /\ UNCHANGED << mem, sb, registry, cursnap, qsr, regd, sleeping, 
-                               woken, faults, sigs, myctr, insig, hcs, alive, 
-                               cs, pre, T, htmp, hg, hf, hheld, entry, i, op, 
-                               res, tmp, g, f, held, old, oldh, popped, it, nx, 
-                               st, wi, wl, ph, scan, v, ipi, ret, mret >>
+               /\ UNCHANGED << mem, sb, registry, cursnap, qsr, wnlive, regd, 
+                               sleeping, woken, wkind, faults, sigs, myctr, 
+                               insig, hcs, alive, cs, pre, T, htmp, hg, hf, 
+                               hheld, entry, i, op, res, tmp, g, f, held, old, 
+                               oldh, popped, it, nx, st, wi, wl, ph, scan, v, 
+                               ipi, ret, mret >>
 
 rl_top(self) == /\ pc[self] = "rl_top"
                 /\ Assert(self \in regd, 
-                          "Failure of assertion at line 206, column 11.")
+                          "Failure of assertion at line 226, column 11.")
                 /\ tmp' = [tmp EXCEPT ![self] = myctr[self]]
                 /\ IF Nest(myctr[self]) # 0
                       THEN /\ pc' = [pc EXCEPT ![self] = "rl_nest"]
                       ELSE /\ pc' = [pc EXCEPT ![self] = "rl_ld"]
                 /\ UNCHANGED << mem, sb, lock, acc, registry, cursnap, qsr, 
-                                regd, sleeping, woken, faults, sigs, myctr, 
-                                insig, hcs, alive, cs, pre, T, htmp, hg, hf, 
-                                hheld, entry, i, op, res, g, f, held, old, 
-                                oldh, popped, it, nx, st, wi, wl, ph, scan, v, 
-                                ipi, ret, mret >>
+                                wnlive, regd, sleeping, woken, wkind, faults, 
+                                sigs, myctr, insig, hcs, alive, cs, pre, T, 
+                                htmp, hg, hf, hheld, entry, i, op, res, g, f, 
+                                held, old, oldh, popped, it, nx, st, wi, wl, 
+                                ph, scan, v, ipi, ret, mret >>
 
 rl_ld(self) == /\ pc[self] = "rl_ld"
                /\ g' = [g EXCEPT ![self] = Rd(self, "gp_ctr")]
                /\ acc' = Ev(self, "ld", "gp_ctr", "-", "-", Rd(self, "gp_ctr"))
                /\ pc' = [pc EXCEPT ![self] = "rl_st"]
-               /\ UNCHANGED << mem, sb, lock, registry, cursnap, qsr, regd, 
-                               sleeping, woken, faults, sigs, myctr, insig, 
-                               hcs, alive, cs, pre, T, htmp, hg, hf, hheld, 
-                               entry, i, op, res, tmp, f, held, old, oldh, 
-                               popped, it, nx, st, wi, wl, ph, scan, v, ipi, 
-                               ret, mret >>
+               /\ UNCHANGED << mem, sb, lock, registry, cursnap, qsr, wnlive, 
+                               regd, sleeping, woken, wkind, faults, sigs, 
+                               myctr, insig, hcs, alive, cs, pre, T, htmp, hg, 
+                               hf, hheld, entry, i, op, res, tmp, f, held, old, 
+                               oldh, popped, it, nx, st, wi, wl, ph, scan, v, 
+                               ipi, ret, mret >>
 
 rl_st(self) == /\ pc[self] = "rl_st"
                /\ IF TSO
@@ -976,11 +1036,12 @@ rl_st(self) == /\ pc[self] = "rl_st"
                /\ acc' = Ev(self, "st", (Rctr(self)), g[self], "-", "-")
                /\ myctr' = [myctr EXCEPT ![self] = g[self]]
                /\ pc' = [pc EXCEPT ![self] = "rl_mb"]
-               /\ UNCHANGED << lock, registry, cursnap, qsr, regd, sleeping, 
-                               woken, faults, sigs, insig, hcs, alive, cs, pre, 
-                               T, htmp, hg, hf, hheld, entry, i, op, res, tmp, 
-                               g, f, held, old, oldh, popped, it, nx, st, wi, 
-                               wl, ph, scan, v, ipi, ret, mret >>
+               /\ UNCHANGED << lock, registry, cursnap, qsr, wnlive, regd, 
+                               sleeping, woken, wkind, faults, sigs, insig, 
+                               hcs, alive, cs, pre, T, htmp, hg, hf, hheld, 
+                               entry, i, op, res, tmp, g, f, held, old, oldh, 
+                               popped, it, nx, st, wi, wl, ph, scan, v, ipi, 
+                               ret, mret >>
 
 rl_mb(self) == /\ pc[self] = "rl_mb"
                /\ IF ReaderFence /\ "rl_mb" \notin Skip
@@ -989,22 +1050,22 @@ rl_mb(self) == /\ pc[self] = "rl_mb"
                      ELSE /\ TRUE
                           /\ acc' = acc
                /\ pc' = [pc EXCEPT ![self] = "rl_in"]
-               /\ UNCHANGED << mem, sb, lock, registry, cursnap, qsr, regd, 
-                               sleeping, woken, faults, sigs, myctr, insig, 
-                               hcs, alive, cs, pre, T, htmp, hg, hf, hheld, 
-                               entry, i, op, res, tmp, g, f, held, old, oldh, 
-                               popped, it, nx, st, wi, wl, ph, scan, v, ipi, 
-                               ret, mret >>
+               /\ UNCHANGED << mem, sb, lock, registry, cursnap, qsr, wnlive, 
+                               regd, sleeping, woken, wkind, faults, sigs, 
+                               myctr, insig, hcs, alive, cs, pre, T, htmp, hg, 
+                               hf, hheld, entry, i, op, res, tmp, g, f, held, 
+                               old, oldh, popped, it, nx, st, wi, wl, ph, scan, 
+                               v, ipi, ret, mret >>
 
 rl_in(self) == /\ pc[self] = "rl_in"
                /\ cs' = [cs EXCEPT ![self] = i[self]]
                /\ pc' = [pc EXCEPT ![self] = "t_ret"]
                /\ UNCHANGED << mem, sb, lock, acc, registry, cursnap, qsr, 
-                               regd, sleeping, woken, faults, sigs, myctr, 
-                               insig, hcs, alive, pre, T, htmp, hg, hf, hheld, 
-                               entry, i, op, res, tmp, g, f, held, old, oldh, 
-                               popped, it, nx, st, wi, wl, ph, scan, v, ipi, 
-                               ret, mret >>
+                               wnlive, regd, sleeping, woken, wkind, faults, 
+                               sigs, myctr, insig, hcs, alive, pre, T, htmp, 
+                               hg, hf, hheld, entry, i, op, res, tmp, g, f, 
+                               held, old, oldh, popped, it, nx, st, wi, wl, ph, 
+                               scan, v, ipi, ret, mret >>
 
 rl_nest(self) == /\ pc[self] = "rl_nest"
                  /\ IF TSO
@@ -1016,36 +1077,37 @@ rl_nest(self) == /\ pc[self] = "rl_nest"
                  /\ acc' = Ev(self, "st", (Rctr(self)), (tmp[self] + 1), "-", "-")
                  /\ myctr' = [myctr EXCEPT ![self] = tmp[self] + 1]
                  /\ pc' = [pc EXCEPT ![self] = "t_ret"]
-                 /\ UNCHANGED << lock, registry, cursnap, qsr, regd, sleeping, 
-                                 woken, faults, sigs, insig, hcs, alive, cs, 
-                                 pre, T, htmp, hg, hf, hheld, entry, i, op, 
-                                 res, tmp, g, f, held, old, oldh, popped, it, 
-                                 nx, st, wi, wl, ph, scan, v, ipi, ret, mret >>
+                 /\ UNCHANGED << lock, registry, cursnap, qsr, wnlive, regd, 
+                                 sleeping, woken, wkind, faults, sigs, insig, 
+                                 hcs, alive, cs, pre, T, htmp, hg, hf, hheld, 
+                                 entry, i, op, res, tmp, g, f, held, old, oldh, 
+                                 popped, it, nx, st, wi, wl, ph, scan, v, ipi, 
+                                 ret, mret >>
 
 ru_top(self) == /\ pc[self] = "ru_top"
                 /\ Assert(held[self] = NULL \/ alive[held[self]], 
-                          "Failure of assertion at line 218, column 11.")
+                          "Failure of assertion at line 238, column 11.")
                 /\ tmp' = [tmp EXCEPT ![self] = myctr[self]]
                 /\ IF Nest(myctr[self]) # 1
                       THEN /\ pc' = [pc EXCEPT ![self] = "ru_nest"]
                       ELSE /\ pc' = [pc EXCEPT ![self] = "ru_out"]
                 /\ UNCHANGED << mem, sb, lock, acc, registry, cursnap, qsr, 
-                                regd, sleeping, woken, faults, sigs, myctr, 
-                                insig, hcs, alive, cs, pre, T, htmp, hg, hf, 
-                                hheld, entry, i, op, res, g, f, held, old, 
-                                oldh, popped, it, nx, st, wi, wl, ph, scan, v, 
-                                ipi, ret, mret >>
+                                wnlive, regd, sleeping, woken, wkind, faults, 
+                                sigs, myctr, insig, hcs, alive, cs, pre, T, 
+                                htmp, hg, hf, hheld, entry, i, op, res, g, f, 
+                                held, old, oldh, popped, it, nx, st, wi, wl, 
+                                ph, scan, v, ipi, ret, mret >>
 
 ru_out(self) == /\ pc[self] = "ru_out"
                 /\ cs' = [cs EXCEPT ![self] = 0]
                 /\ held' = [held EXCEPT ![self] = NULL]
                 /\ pc' = [pc EXCEPT ![self] = "ru_mb1"]
                 /\ UNCHANGED << mem, sb, lock, acc, registry, cursnap, qsr, 
-                                regd, sleeping, woken, faults, sigs, myctr, 
-                                insig, hcs, alive, pre, T, htmp, hg, hf, hheld, 
-                                entry, i, op, res, tmp, g, f, old, oldh, 
-                                popped, it, nx, st, wi, wl, ph, scan, v, ipi, 
-                                ret, mret >>
+                                wnlive, regd, sleeping, woken, wkind, faults, 
+                                sigs, myctr, insig, hcs, alive, pre, T, htmp, 
+                                hg, hf, hheld, entry, i, op, res, tmp, g, f, 
+                                old, oldh, popped, it, nx, st, wi, wl, ph, 
+                                scan, v, ipi, ret, mret >>
 
 ru_mb1(self) == /\ pc[self] = "ru_mb1"
                 /\ IF Flavor = "memb" /\ ReaderFence /\ "ru_mb1" \notin Skip
@@ -1054,12 +1116,12 @@ ru_mb1(self) == /\ pc[self] = "ru_mb1"
                       ELSE /\ TRUE
                            /\ acc' = acc
                 /\ pc' = [pc EXCEPT ![self] = "ru_st"]
-                /\ UNCHANGED << mem, sb, lock, registry, cursnap, qsr, regd, 
-                                sleeping, woken, faults, sigs, myctr, insig, 
-                                hcs, alive, cs, pre, T, htmp, hg, hf, hheld, 
-                                entry, i, op, res, tmp, g, f, held, old, oldh, 
-                                popped, it, nx, st, wi, wl, ph, scan, v, ipi, 
-                                ret, mret >>
+                /\ UNCHANGED << mem, sb, lock, registry, cursnap, qsr, wnlive, 
+                                regd, sleeping, woken, wkind, faults, sigs, 
+                                myctr, insig, hcs, alive, cs, pre, T, htmp, hg, 
+                                hf, hheld, entry, i, op, res, tmp, g, f, held, 
+                                old, oldh, popped, it, nx, st, wi, wl, ph, 
+                                scan, v, ipi, ret, mret >>
 
 ru_st(self) == /\ pc[self] = "ru_st"
                /\ IF Flavor = "mb" /\ "ru_st" \notin Weak
@@ -1076,11 +1138,12 @@ ru_st(self) == /\ pc[self] = "ru_st"
                           /\ acc' = Ev(self, "st", (Rctr(self)), (tmp[self] - 1), "-", "-")
                /\ myctr' = [myctr EXCEPT ![self] = tmp[self] - 1]
                /\ pc' = [pc EXCEPT ![self] = "ru_mb2"]
-               /\ UNCHANGED << lock, registry, cursnap, qsr, regd, sleeping, 
-                               woken, faults, sigs, insig, hcs, alive, cs, pre, 
-                               T, htmp, hg, hf, hheld, entry, i, op, res, tmp, 
-                               g, f, held, old, oldh, popped, it, nx, st, wi, 
-                               wl, ph, scan, v, ipi, ret, mret >>
+               /\ UNCHANGED << lock, registry, cursnap, qsr, wnlive, regd, 
+                               sleeping, woken, wkind, faults, sigs, insig, 
+                               hcs, alive, cs, pre, T, htmp, hg, hf, hheld, 
+                               entry, i, op, res, tmp, g, f, held, old, oldh, 
+                               popped, it, nx, st, wi, wl, ph, scan, v, ipi, 
+                               ret, mret >>
 
 ru_mb2(self) == /\ pc[self] = "ru_mb2"
                 /\ IF Flavor = "memb" /\ ReaderFence /\ "ru_mb2" \notin Skip
@@ -1089,12 +1152,12 @@ ru_mb2(self) == /\ pc[self] = "ru_mb2"
                       ELSE /\ TRUE
                            /\ acc' = acc
                 /\ pc' = [pc EXCEPT ![self] = "ru_ldf"]
-                /\ UNCHANGED << mem, sb, lock, registry, cursnap, qsr, regd, 
-                                sleeping, woken, faults, sigs, myctr, insig, 
-                                hcs, alive, cs, pre, T, htmp, hg, hf, hheld, 
-                                entry, i, op, res, tmp, g, f, held, old, oldh, 
-                                popped, it, nx, st, wi, wl, ph, scan, v, ipi, 
-                                ret, mret >>
+                /\ UNCHANGED << mem, sb, lock, registry, cursnap, qsr, wnlive, 
+                                regd, sleeping, woken, wkind, faults, sigs, 
+                                myctr, insig, hcs, alive, cs, pre, T, htmp, hg, 
+                                hf, hheld, entry, i, op, res, tmp, g, f, held, 
+                                old, oldh, popped, it, nx, st, wi, wl, ph, 
+                                scan, v, ipi, ret, mret >>
 
 ru_ldf(self) == /\ pc[self] = "ru_ldf"
                 /\ f' = [f EXCEPT ![self] = Rd(self, "gp_futex")]
@@ -1102,12 +1165,12 @@ ru_ldf(self) == /\ pc[self] = "ru_ldf"
                 /\ IF f'[self] # -1
                       THEN /\ pc' = [pc EXCEPT ![self] = "t_ret"]
                       ELSE /\ pc' = [pc EXCEPT ![self] = "ru_stf"]
-                /\ UNCHANGED << mem, sb, lock, registry, cursnap, qsr, regd, 
-                                sleeping, woken, faults, sigs, myctr, insig, 
-                                hcs, alive, cs, pre, T, htmp, hg, hf, hheld, 
-                                entry, i, op, res, tmp, g, held, old, oldh, 
-                                popped, it, nx, st, wi, wl, ph, scan, v, ipi, 
-                                ret, mret >>
+                /\ UNCHANGED << mem, sb, lock, registry, cursnap, qsr, wnlive, 
+                                regd, sleeping, woken, wkind, faults, sigs, 
+                                myctr, insig, hcs, alive, cs, pre, T, htmp, hg, 
+                                hf, hheld, entry, i, op, res, tmp, g, held, 
+                                old, oldh, popped, it, nx, st, wi, wl, ph, 
+                                scan, v, ipi, ret, mret >>
 
 ru_stf(self) == /\ pc[self] = "ru_stf"
                 /\ IF TSO
@@ -1120,11 +1183,12 @@ ru_stf(self) == /\ pc[self] = "ru_stf"
                 /\ IF FutexMode = "compat"
                       THEN /\ pc' = [pc EXCEPT ![self] = "ru_cmb"]
                       ELSE /\ pc' = [pc EXCEPT ![self] = "ru_wake"]
-                /\ UNCHANGED << lock, registry, cursnap, qsr, regd, sleeping, 
-                                woken, faults, sigs, myctr, insig, hcs, alive, 
-                                cs, pre, T, htmp, hg, hf, hheld, entry, i, op, 
-                                res, tmp, g, f, held, old, oldh, popped, it, 
-                                nx, st, wi, wl, ph, scan, v, ipi, ret, mret >>
+                /\ UNCHANGED << lock, registry, cursnap, qsr, wnlive, regd, 
+                                sleeping, woken, wkind, faults, sigs, myctr, 
+                                insig, hcs, alive, cs, pre, T, htmp, hg, hf, 
+                                hheld, entry, i, op, res, tmp, g, f, held, old, 
+                                oldh, popped, it, nx, st, wi, wl, ph, scan, v, 
+                                ipi, ret, mret >>
 
 ru_wake(self) == /\ pc[self] = "ru_wake"
                  /\ Drained(self)
@@ -1140,23 +1204,23 @@ ru_wake(self) == /\ pc[self] = "ru_wake"
                        ELSE /\ acc' = Ev(self, "fwake", "gp_futex", "-", "-", "ENOSYS")
                             /\ pc' = [pc EXCEPT ![self] = "ru_cmb"]
                             /\ woken' = woken
-                 /\ UNCHANGED << mem, sb, lock, registry, cursnap, qsr, regd, 
-                                 sleeping, faults, sigs, myctr, insig, hcs, 
-                                 alive, cs, pre, T, htmp, hg, hf, hheld, entry, 
-                                 i, op, res, tmp, g, f, held, old, oldh, 
-                                 popped, it, nx, st, wi, wl, ph, scan, v, ipi, 
-                                 ret, mret >>
+                 /\ UNCHANGED << mem, sb, lock, registry, cursnap, qsr, wnlive, 
+                                 regd, sleeping, wkind, faults, sigs, myctr, 
+                                 insig, hcs, alive, cs, pre, T, htmp, hg, hf, 
+                                 hheld, entry, i, op, res, tmp, g, f, held, 
+                                 old, oldh, popped, it, nx, st, wi, wl, ph, 
+                                 scan, v, ipi, ret, mret >>
 
 ru_cmb(self) == /\ pc[self] = "ru_cmb"
                 /\ Drained(self)
                 /\ acc' = Ev(self, "mb", "-", "-", "-", "-")
                 /\ pc' = [pc EXCEPT ![self] = "t_ret"]
-                /\ UNCHANGED << mem, sb, lock, registry, cursnap, qsr, regd, 
-                                sleeping, woken, faults, sigs, myctr, insig, 
-                                hcs, alive, cs, pre, T, htmp, hg, hf, hheld, 
-                                entry, i, op, res, tmp, g, f, held, old, oldh, 
-                                popped, it, nx, st, wi, wl, ph, scan, v, ipi, 
-                                ret, mret >>
+                /\ UNCHANGED << mem, sb, lock, registry, cursnap, qsr, wnlive, 
+                                regd, sleeping, woken, wkind, faults, sigs, 
+                                myctr, insig, hcs, alive, cs, pre, T, htmp, hg, 
+                                hf, hheld, entry, i, op, res, tmp, g, f, held, 
+                                old, oldh, popped, it, nx, st, wi, wl, ph, 
+                                scan, v, ipi, ret, mret >>
 
 ru_nest(self) == /\ pc[self] = "ru_nest"
                  /\ IF TSO
@@ -1168,22 +1232,24 @@ ru_nest(self) == /\ pc[self] = "ru_nest"
                  /\ acc' = Ev(self, "st", (Rctr(self)), (tmp[self] - 1), "-", "-")
                  /\ myctr' = [myctr EXCEPT ![self] = tmp[self] - 1]
                  /\ pc' = [pc EXCEPT ![self] = "t_ret"]
-                 /\ UNCHANGED << lock, registry, cursnap, qsr, regd, sleeping, 
-                                 woken, faults, sigs, insig, hcs, alive, cs, 
-                                 pre, T, htmp, hg, hf, hheld, entry, i, op, 
-                                 res, tmp, g, f, held, old, oldh, popped, it, 
-                                 nx, st, wi, wl, ph, scan, v, ipi, ret, mret >>
+                 /\ UNCHANGED << lock, registry, cursnap, qsr, wnlive, regd, 
+                                 sleeping, woken, wkind, faults, sigs, insig, 
+                                 hcs, alive, cs, pre, T, htmp, hg, hf, hheld, 
+                                 entry, i, op, res, tmp, g, f, held, old, oldh, 
+                                 popped, it, nx, st, wi, wl, ph, scan, v, ipi, 
+                                 ret, mret >>
 
 dr_ld(self) == /\ pc[self] = "dr_ld"
                /\ held' = [held EXCEPT ![self] = Rd(self, "gptr")]
                /\ acc' = Ev(self, "ld", "gptr", "-", "-", Rd(self, "gptr"))
                /\ res' = [res EXCEPT ![self] = held'[self]]
                /\ pc' = [pc EXCEPT ![self] = "t_ret"]
-               /\ UNCHANGED << mem, sb, lock, registry, cursnap, qsr, regd, 
-                               sleeping, woken, faults, sigs, myctr, insig, 
-                               hcs, alive, cs, pre, T, htmp, hg, hf, hheld, 
-                               entry, i, op, tmp, g, f, old, oldh, popped, it, 
-                               nx, st, wi, wl, ph, scan, v, ipi, ret, mret >>
+               /\ UNCHANGED << mem, sb, lock, registry, cursnap, qsr, wnlive, 
+                               regd, sleeping, woken, wkind, faults, sigs, 
+                               myctr, insig, hcs, alive, cs, pre, T, htmp, hg, 
+                               hf, hheld, entry, i, op, tmp, g, f, old, oldh, 
+                               popped, it, nx, st, wi, wl, ph, scan, v, ipi, 
+                               ret, mret >>
 
 p_xchg(self) == /\ pc[self] = "p_xchg"
                 /\ Drained(self)
@@ -1192,22 +1258,22 @@ p_xchg(self) == /\ pc[self] = "p_xchg"
                 /\ acc' = Ev(self, "xchg", "gptr", (op[self].o), "-", old'[self])
                 /\ res' = [res EXCEPT ![self] = old'[self]]
                 /\ pc' = [pc EXCEPT ![self] = "t_ret"]
-                /\ UNCHANGED << sb, lock, registry, cursnap, qsr, regd, 
-                                sleeping, woken, faults, sigs, myctr, insig, 
-                                hcs, alive, cs, pre, T, htmp, hg, hf, hheld, 
-                                entry, i, op, tmp, g, f, held, oldh, popped, 
-                                it, nx, st, wi, wl, ph, scan, v, ipi, ret, 
-                                mret >>
+                /\ UNCHANGED << sb, lock, registry, cursnap, qsr, wnlive, regd, 
+                                sleeping, woken, wkind, faults, sigs, myctr, 
+                                insig, hcs, alive, cs, pre, T, htmp, hg, hf, 
+                                hheld, entry, i, op, tmp, g, f, held, oldh, 
+                                popped, it, nx, st, wi, wl, ph, scan, v, ipi, 
+                                ret, mret >>
 
 s_call(self) == /\ pc[self] = "s_call"
                 /\ pre' = [pre EXCEPT ![self] = OpenCS]
                 /\ pc' = [pc EXCEPT ![self] = "s_mb0"]
                 /\ UNCHANGED << mem, sb, lock, acc, registry, cursnap, qsr, 
-                                regd, sleeping, woken, faults, sigs, myctr, 
-                                insig, hcs, alive, cs, T, htmp, hg, hf, hheld, 
-                                entry, i, op, res, tmp, g, f, held, old, oldh, 
-                                popped, it, nx, st, wi, wl, ph, scan, v, ipi, 
-                                ret, mret >>
+                                wnlive, regd, sleeping, woken, wkind, faults, 
+                                sigs, myctr, insig, hcs, alive, cs, T, htmp, 
+                                hg, hf, hheld, entry, i, op, res, tmp, g, f, 
+                                held, old, oldh, popped, it, nx, st, wi, wl, 
+                                ph, scan, v, ipi, ret, mret >>
 
 s_mb0(self) == /\ pc[self] = "s_mb0"
                /\ IF "s_mb0" \notin Skip
@@ -1216,23 +1282,24 @@ s_mb0(self) == /\ pc[self] = "s_mb0"
                      ELSE /\ TRUE
                           /\ acc' = acc
                /\ pc' = [pc EXCEPT ![self] = "s_push"]
-               /\ UNCHANGED << mem, sb, lock, registry, cursnap, qsr, regd, 
-                               sleeping, woken, faults, sigs, myctr, insig, 
-                               hcs, alive, cs, pre, T, htmp, hg, hf, hheld, 
-                               entry, i, op, res, tmp, g, f, held, old, oldh, 
-                               popped, it, nx, st, wi, wl, ph, scan, v, ipi, 
-                               ret, mret >>
+               /\ UNCHANGED << mem, sb, lock, registry, cursnap, qsr, wnlive, 
+                               regd, sleeping, woken, wkind, faults, sigs, 
+                               myctr, insig, hcs, alive, cs, pre, T, htmp, hg, 
+                               hf, hheld, entry, i, op, res, tmp, g, f, held, 
+                               old, oldh, popped, it, nx, st, wi, wl, ph, scan, 
+                               v, ipi, ret, mret >>
 
 s_push(self) == /\ pc[self] = "s_push"
+                /\ wnlive' = (wnlive \cup {Wn(self)})
                 /\ Drained(self)
                 /\ oldh' = [oldh EXCEPT ![self] = mem["waiters"]]
                 /\ mem' = [mem EXCEPT !["waiters"] = Wn(self)]
                 /\ acc' = Ev(self, "xchg", "waiters", (Wn(self)), "-", oldh'[self])
                 /\ pc' = [pc EXCEPT ![self] = "s_link"]
                 /\ UNCHANGED << sb, lock, registry, cursnap, qsr, regd, 
-                                sleeping, woken, faults, sigs, myctr, insig, 
-                                hcs, alive, cs, pre, T, htmp, hg, hf, hheld, 
-                                entry, i, op, res, tmp, g, f, held, old, 
+                                sleeping, woken, wkind, faults, sigs, myctr, 
+                                insig, hcs, alive, cs, pre, T, htmp, hg, hf, 
+                                hheld, entry, i, op, res, tmp, g, f, held, old, 
                                 popped, it, nx, st, wi, wl, ph, scan, v, ipi, 
                                 ret, mret >>
 
@@ -1249,11 +1316,12 @@ s_link(self) == /\ pc[self] = "s_link"
                            /\ pc' = [pc EXCEPT ![self] = "a_ld1"]
                       ELSE /\ pc' = [pc EXCEPT ![self] = "s_run"]
                            /\ wi' = wi
-                /\ UNCHANGED << lock, registry, cursnap, qsr, regd, sleeping, 
-                                woken, faults, sigs, myctr, insig, hcs, alive, 
-                                cs, pre, T, htmp, hg, hf, hheld, entry, i, op, 
-                                res, tmp, g, f, held, old, oldh, popped, it, 
-                                nx, st, wl, ph, scan, v, ipi, ret, mret >>
+                /\ UNCHANGED << lock, registry, cursnap, qsr, wnlive, regd, 
+                                sleeping, woken, wkind, faults, sigs, myctr, 
+                                insig, hcs, alive, cs, pre, T, htmp, hg, hf, 
+                                hheld, entry, i, op, res, tmp, g, f, held, old, 
+                                oldh, popped, it, nx, st, wl, ph, scan, v, ipi, 
+                                ret, mret >>
 
 s_run(self) == /\ pc[self] = "s_run"
                /\ IF Tracing \/ ~TSO
@@ -1264,24 +1332,24 @@ s_run(self) == /\ pc[self] = "s_run"
                           /\ sb' = [sb EXCEPT ![self] = Append(sb[self], <<WnState(Wn(self)), RUNNING>>)]
                           /\ mem' = mem
                /\ pc' = [pc EXCEPT ![self] = "s_gplk"]
-               /\ UNCHANGED << lock, acc, registry, cursnap, qsr, regd, 
-                               sleeping, woken, faults, sigs, myctr, insig, 
-                               hcs, alive, cs, pre, T, htmp, hg, hf, hheld, 
-                               entry, i, op, res, tmp, g, f, held, old, oldh, 
-                               popped, it, nx, st, wi, wl, ph, scan, v, ipi, 
-                               ret, mret >>
+               /\ UNCHANGED << lock, acc, registry, cursnap, qsr, wnlive, regd, 
+                               sleeping, woken, wkind, faults, sigs, myctr, 
+                               insig, hcs, alive, cs, pre, T, htmp, hg, hf, 
+                               hheld, entry, i, op, res, tmp, g, f, held, old, 
+                               oldh, popped, it, nx, st, wi, wl, ph, scan, v, 
+                               ipi, ret, mret >>
 
 s_gplk(self) == /\ pc[self] = "s_gplk"
                 /\ Drained(self) /\ lock["gp_lock"] = "free"
                 /\ lock' = [lock EXCEPT !["gp_lock"] = self]
                 /\ acc' = Ev(self, "lock", "gp_lock", "-", "-", "-")
                 /\ pc' = [pc EXCEPT ![self] = "s_pop"]
-                /\ UNCHANGED << mem, sb, registry, cursnap, qsr, regd, 
-                                sleeping, woken, faults, sigs, myctr, insig, 
-                                hcs, alive, cs, pre, T, htmp, hg, hf, hheld, 
-                                entry, i, op, res, tmp, g, f, held, old, oldh, 
-                                popped, it, nx, st, wi, wl, ph, scan, v, ipi, 
-                                ret, mret >>
+                /\ UNCHANGED << mem, sb, registry, cursnap, qsr, wnlive, regd, 
+                                sleeping, woken, wkind, faults, sigs, myctr, 
+                                insig, hcs, alive, cs, pre, T, htmp, hg, hf, 
+                                hheld, entry, i, op, res, tmp, g, f, held, old, 
+                                oldh, popped, it, nx, st, wi, wl, ph, scan, v, 
+                                ipi, ret, mret >>
 
 s_pop(self) == /\ pc[self] = "s_pop"
                /\ Drained(self)
@@ -1289,11 +1357,12 @@ s_pop(self) == /\ pc[self] = "s_pop"
                /\ mem' = [mem EXCEPT !["waiters"] = END]
                /\ acc' = Ev(self, "xchg", "waiters", END, "-", popped'[self])
                /\ pc' = [pc EXCEPT ![self] = "s_popmb"]
-               /\ UNCHANGED << sb, lock, registry, cursnap, qsr, regd, 
-                               sleeping, woken, faults, sigs, myctr, insig, 
-                               hcs, alive, cs, pre, T, htmp, hg, hf, hheld, 
-                               entry, i, op, res, tmp, g, f, held, old, oldh, 
-                               it, nx, st, wi, wl, ph, scan, v, ipi, ret, mret >>
+               /\ UNCHANGED << sb, lock, registry, cursnap, qsr, wnlive, regd, 
+                               sleeping, woken, wkind, faults, sigs, myctr, 
+                               insig, hcs, alive, cs, pre, T, htmp, hg, hf, 
+                               hheld, entry, i, op, res, tmp, g, f, held, old, 
+                               oldh, it, nx, st, wi, wl, ph, scan, v, ipi, ret, 
+                               mret >>
 
 s_popmb(self) == /\ pc[self] = "s_popmb"
                  /\ IF "s_popmb" \notin Skip
@@ -1302,12 +1371,12 @@ s_popmb(self) == /\ pc[self] = "s_popmb"
                        ELSE /\ TRUE
                             /\ acc' = acc
                  /\ pc' = [pc EXCEPT ![self] = "s_rglk"]
-                 /\ UNCHANGED << mem, sb, lock, registry, cursnap, qsr, regd, 
-                                 sleeping, woken, faults, sigs, myctr, insig, 
-                                 hcs, alive, cs, pre, T, htmp, hg, hf, hheld, 
-                                 entry, i, op, res, tmp, g, f, held, old, oldh, 
-                                 popped, it, nx, st, wi, wl, ph, scan, v, ipi, 
-                                 ret, mret >>
+                 /\ UNCHANGED << mem, sb, lock, registry, cursnap, qsr, wnlive, 
+                                 regd, sleeping, woken, wkind, faults, sigs, 
+                                 myctr, insig, hcs, alive, cs, pre, T, htmp, 
+                                 hg, hf, hheld, entry, i, op, res, tmp, g, f, 
+                                 held, old, oldh, popped, it, nx, st, wi, wl, 
+                                 ph, scan, v, ipi, ret, mret >>
 
 s_rglk(self) == /\ pc[self] = "s_rglk"
                 /\ Drained(self) /\ lock["registry_lock"] = "free"
@@ -1316,12 +1385,12 @@ s_rglk(self) == /\ pc[self] = "s_rglk"
                 /\ IF registry = {}
                       THEN /\ pc' = [pc EXCEPT ![self] = "s_out"]
                       ELSE /\ pc' = [pc EXCEPT ![self] = "s_mm1"]
-                /\ UNCHANGED << mem, sb, registry, cursnap, qsr, regd, 
-                                sleeping, woken, faults, sigs, myctr, insig, 
-                                hcs, alive, cs, pre, T, htmp, hg, hf, hheld, 
-                                entry, i, op, res, tmp, g, f, held, old, oldh, 
-                                popped, it, nx, st, wi, wl, ph, scan, v, ipi, 
-                                ret, mret >>
+                /\ UNCHANGED << mem, sb, registry, cursnap, qsr, wnlive, regd, 
+                                sleeping, woken, wkind, faults, sigs, myctr, 
+                                insig, hcs, alive, cs, pre, T, htmp, hg, hf, 
+                                hheld, entry, i, op, res, tmp, g, f, held, old, 
+                                oldh, popped, it, nx, st, wi, wl, ph, scan, v, 
+                                ipi, ret, mret >>
 
 s_mm1(self) == /\ pc[self] = "s_mm1"
                /\ mret' = [mret EXCEPT ![self] = "s_p1"]
@@ -1329,21 +1398,22 @@ s_mm1(self) == /\ pc[self] = "s_mm1"
                      THEN /\ pc' = [pc EXCEPT ![self] = "s_p1"]
                      ELSE /\ pc' = [pc EXCEPT ![self] = "master"]
                /\ UNCHANGED << mem, sb, lock, acc, registry, cursnap, qsr, 
-                               regd, sleeping, woken, faults, sigs, myctr, 
-                               insig, hcs, alive, cs, pre, T, htmp, hg, hf, 
-                               hheld, entry, i, op, res, tmp, g, f, held, old, 
-                               oldh, popped, it, nx, st, wi, wl, ph, scan, v, 
-                               ipi, ret >>
+                               wnlive, regd, sleeping, woken, wkind, faults, 
+                               sigs, myctr, insig, hcs, alive, cs, pre, T, 
+                               htmp, hg, hf, hheld, entry, i, op, res, tmp, g, 
+                               f, held, old, oldh, popped, it, nx, st, wi, wl, 
+                               ph, scan, v, ipi, ret >>
 
 s_p1(self) == /\ pc[self] = "s_p1"
               /\ ph' = [ph EXCEPT ![self] = 1]
               /\ ret' = [ret EXCEPT ![self] = "s_mb2"]
               /\ pc' = [pc EXCEPT ![self] = "w_top"]
-              /\ UNCHANGED << mem, sb, lock, acc, registry, cursnap, qsr, regd, 
-                              sleeping, woken, faults, sigs, myctr, insig, hcs, 
-                              alive, cs, pre, T, htmp, hg, hf, hheld, entry, i, 
-                              op, res, tmp, g, f, held, old, oldh, popped, it, 
-                              nx, st, wi, wl, scan, v, ipi, mret >>
+              /\ UNCHANGED << mem, sb, lock, acc, registry, cursnap, qsr, 
+                              wnlive, regd, sleeping, woken, wkind, faults, 
+                              sigs, myctr, insig, hcs, alive, cs, pre, T, htmp, 
+                              hg, hf, hheld, entry, i, op, res, tmp, g, f, 
+                              held, old, oldh, popped, it, nx, st, wi, wl, 
+                              scan, v, ipi, mret >>
 
 s_mb2(self) == /\ pc[self] = "s_mb2"
                /\ IF "s_mb2" \notin Skip
@@ -1352,12 +1422,12 @@ s_mb2(self) == /\ pc[self] = "s_mb2"
                      ELSE /\ TRUE
                           /\ acc' = acc
                /\ pc' = [pc EXCEPT ![self] = "s_flip"]
-               /\ UNCHANGED << mem, sb, lock, registry, cursnap, qsr, regd, 
-                               sleeping, woken, faults, sigs, myctr, insig, 
-                               hcs, alive, cs, pre, T, htmp, hg, hf, hheld, 
-                               entry, i, op, res, tmp, g, f, held, old, oldh, 
-                               popped, it, nx, st, wi, wl, ph, scan, v, ipi, 
-                               ret, mret >>
+               /\ UNCHANGED << mem, sb, lock, registry, cursnap, qsr, wnlive, 
+                               regd, sleeping, woken, wkind, faults, sigs, 
+                               myctr, insig, hcs, alive, cs, pre, T, htmp, hg, 
+                               hf, hheld, entry, i, op, res, tmp, g, f, held, 
+                               old, oldh, popped, it, nx, st, wi, wl, ph, scan, 
+                               v, ipi, ret, mret >>
 
 s_flip(self) == /\ pc[self] = "s_flip"
                 /\ IF TSO
@@ -1368,11 +1438,12 @@ s_flip(self) == /\ pc[self] = "s_flip"
                            /\ sb' = sb
                 /\ acc' = Ev(self, "st", "gp_ctr", (IF Ph(Rd(self, "gp_ctr")) = 0 THEN Rd(self, "gp_ctr") + PHASE ELSE Rd(self, "gp_ctr") - PHASE), "-", "-")
                 /\ pc' = [pc EXCEPT ![self] = "s_mb3"]
-                /\ UNCHANGED << lock, registry, cursnap, qsr, regd, sleeping, 
-                                woken, faults, sigs, myctr, insig, hcs, alive, 
-                                cs, pre, T, htmp, hg, hf, hheld, entry, i, op, 
-                                res, tmp, g, f, held, old, oldh, popped, it, 
-                                nx, st, wi, wl, ph, scan, v, ipi, ret, mret >>
+                /\ UNCHANGED << lock, registry, cursnap, qsr, wnlive, regd, 
+                                sleeping, woken, wkind, faults, sigs, myctr, 
+                                insig, hcs, alive, cs, pre, T, htmp, hg, hf, 
+                                hheld, entry, i, op, res, tmp, g, f, held, old, 
+                                oldh, popped, it, nx, st, wi, wl, ph, scan, v, 
+                                ipi, ret, mret >>
 
 s_mb3(self) == /\ pc[self] = "s_mb3"
                /\ IF "s_mb3" \notin Skip
@@ -1381,33 +1452,34 @@ s_mb3(self) == /\ pc[self] = "s_mb3"
                      ELSE /\ TRUE
                           /\ acc' = acc
                /\ pc' = [pc EXCEPT ![self] = "s_p2"]
-               /\ UNCHANGED << mem, sb, lock, registry, cursnap, qsr, regd, 
-                               sleeping, woken, faults, sigs, myctr, insig, 
-                               hcs, alive, cs, pre, T, htmp, hg, hf, hheld, 
-                               entry, i, op, res, tmp, g, f, held, old, oldh, 
-                               popped, it, nx, st, wi, wl, ph, scan, v, ipi, 
-                               ret, mret >>
+               /\ UNCHANGED << mem, sb, lock, registry, cursnap, qsr, wnlive, 
+                               regd, sleeping, woken, wkind, faults, sigs, 
+                               myctr, insig, hcs, alive, cs, pre, T, htmp, hg, 
+                               hf, hheld, entry, i, op, res, tmp, g, f, held, 
+                               old, oldh, popped, it, nx, st, wi, wl, ph, scan, 
+                               v, ipi, ret, mret >>
 
 s_p2(self) == /\ pc[self] = "s_p2"
               /\ ph' = [ph EXCEPT ![self] = 2]
               /\ ret' = [ret EXCEPT ![self] = "s_splice"]
               /\ pc' = [pc EXCEPT ![self] = "w_top"]
-              /\ UNCHANGED << mem, sb, lock, acc, registry, cursnap, qsr, regd, 
-                              sleeping, woken, faults, sigs, myctr, insig, hcs, 
-                              alive, cs, pre, T, htmp, hg, hf, hheld, entry, i, 
-                              op, res, tmp, g, f, held, old, oldh, popped, it, 
-                              nx, st, wi, wl, scan, v, ipi, mret >>
+              /\ UNCHANGED << mem, sb, lock, acc, registry, cursnap, qsr, 
+                              wnlive, regd, sleeping, woken, wkind, faults, 
+                              sigs, myctr, insig, hcs, alive, cs, pre, T, htmp, 
+                              hg, hf, hheld, entry, i, op, res, tmp, g, f, 
+                              held, old, oldh, popped, it, nx, st, wi, wl, 
+                              scan, v, ipi, mret >>
 
 s_splice(self) == /\ pc[self] = "s_splice"
                   /\ /\ qsr' = {}
                      /\ registry' = (registry \cup qsr)
                   /\ pc' = [pc EXCEPT ![self] = "s_mm2"]
-                  /\ UNCHANGED << mem, sb, lock, acc, cursnap, regd, sleeping, 
-                                  woken, faults, sigs, myctr, insig, hcs, 
-                                  alive, cs, pre, T, htmp, hg, hf, hheld, 
-                                  entry, i, op, res, tmp, g, f, held, old, 
-                                  oldh, popped, it, nx, st, wi, wl, ph, scan, 
-                                  v, ipi, ret, mret >>
+                  /\ UNCHANGED << mem, sb, lock, acc, cursnap, wnlive, regd, 
+                                  sleeping, woken, wkind, faults, sigs, myctr, 
+                                  insig, hcs, alive, cs, pre, T, htmp, hg, hf, 
+                                  hheld, entry, i, op, res, tmp, g, f, held, 
+                                  old, oldh, popped, it, nx, st, wi, wl, ph, 
+                                  scan, v, ipi, ret, mret >>
 
 s_mm2(self) == /\ pc[self] = "s_mm2"
                /\ mret' = [mret EXCEPT ![self] = "s_out"]
@@ -1415,22 +1487,23 @@ s_mm2(self) == /\ pc[self] = "s_mm2"
                      THEN /\ pc' = [pc EXCEPT ![self] = "s_out"]
                      ELSE /\ pc' = [pc EXCEPT ![self] = "master"]
                /\ UNCHANGED << mem, sb, lock, acc, registry, cursnap, qsr, 
-                               regd, sleeping, woken, faults, sigs, myctr, 
-                               insig, hcs, alive, cs, pre, T, htmp, hg, hf, 
-                               hheld, entry, i, op, res, tmp, g, f, held, old, 
-                               oldh, popped, it, nx, st, wi, wl, ph, scan, v, 
-                               ipi, ret >>
+                               wnlive, regd, sleeping, woken, wkind, faults, 
+                               sigs, myctr, insig, hcs, alive, cs, pre, T, 
+                               htmp, hg, hf, hheld, entry, i, op, res, tmp, g, 
+                               f, held, old, oldh, popped, it, nx, st, wi, wl, 
+                               ph, scan, v, ipi, ret >>
 
 s_out(self) == /\ pc[self] = "s_out"
                /\ Drained(self)
                /\ lock' = [lock EXCEPT !["registry_lock"] = "free"]
                /\ acc' = Ev(self, "unlock", "registry_lock", "-", "-", "-")
                /\ pc' = [pc EXCEPT ![self] = "s_gpun"]
-               /\ UNCHANGED << mem, sb, registry, cursnap, qsr, regd, sleeping, 
-                               woken, faults, sigs, myctr, insig, hcs, alive, 
-                               cs, pre, T, htmp, hg, hf, hheld, entry, i, op, 
-                               res, tmp, g, f, held, old, oldh, popped, it, nx, 
-                               st, wi, wl, ph, scan, v, ipi, ret, mret >>
+               /\ UNCHANGED << mem, sb, registry, cursnap, qsr, wnlive, regd, 
+                               sleeping, woken, wkind, faults, sigs, myctr, 
+                               insig, hcs, alive, cs, pre, T, htmp, hg, hf, 
+                               hheld, entry, i, op, res, tmp, g, f, held, old, 
+                               oldh, popped, it, nx, st, wi, wl, ph, scan, v, 
+                               ipi, ret, mret >>
 
 s_gpun(self) == /\ pc[self] = "s_gpun"
                 /\ Drained(self)
@@ -1438,38 +1511,42 @@ s_gpun(self) == /\ pc[self] = "s_gpun"
                 /\ acc' = Ev(self, "unlock", "gp_lock", "-", "-", "-")
                 /\ it' = [it EXCEPT ![self] = popped[self]]
                 /\ pc' = [pc EXCEPT ![self] = "k_top"]
-                /\ UNCHANGED << mem, sb, registry, cursnap, qsr, regd, 
-                                sleeping, woken, faults, sigs, myctr, insig, 
-                                hcs, alive, cs, pre, T, htmp, hg, hf, hheld, 
-                                entry, i, op, res, tmp, g, f, held, old, oldh, 
-                                popped, nx, st, wi, wl, ph, scan, v, ipi, ret, 
-                                mret >>
+                /\ UNCHANGED << mem, sb, registry, cursnap, qsr, wnlive, regd, 
+                                sleeping, woken, wkind, faults, sigs, myctr, 
+                                insig, hcs, alive, cs, pre, T, htmp, hg, hf, 
+                                hheld, entry, i, op, res, tmp, g, f, held, old, 
+                                oldh, popped, nx, st, wi, wl, ph, scan, v, ipi, 
+                                ret, mret >>
 
 k_top(self) == /\ pc[self] = "k_top"
                /\ IF it[self] = END
                      THEN /\ pc' = [pc EXCEPT ![self] = "s_ret"]
                      ELSE /\ pc' = [pc EXCEPT ![self] = "k_next"]
                /\ UNCHANGED << mem, sb, lock, acc, registry, cursnap, qsr, 
-                               regd, sleeping, woken, faults, sigs, myctr, 
-                               insig, hcs, alive, cs, pre, T, htmp, hg, hf, 
-                               hheld, entry, i, op, res, tmp, g, f, held, old, 
-                               oldh, popped, it, nx, st, wi, wl, ph, scan, v, 
-                               ipi, ret, mret >>
+                               wnlive, regd, sleeping, woken, wkind, faults, 
+                               sigs, myctr, insig, hcs, alive, cs, pre, T, 
+                               htmp, hg, hf, hheld, entry, i, op, res, tmp, g, 
+                               f, held, old, oldh, popped, it, nx, st, wi, wl, 
+                               ph, scan, v, ipi, ret, mret >>
 
 k_next(self) == /\ pc[self] = "k_next"
+                /\ Assert(it[self] \in wnlive, 
+                          "Failure of assertion at line 299, column 11.")
                 /\ nx' = [nx EXCEPT ![self] = Rd(self, (WnNext(it[self])))]
                 /\ acc' = Ev(self, "ld", (WnNext(it[self])), "-", "-", Rd(self, (WnNext(it[self]))))
                 /\ IF nx'[self] = NULL
                       THEN /\ pc' = [pc EXCEPT ![self] = "k_next"]
                       ELSE /\ pc' = [pc EXCEPT ![self] = "k_ldst"]
-                /\ UNCHANGED << mem, sb, lock, registry, cursnap, qsr, regd, 
-                                sleeping, woken, faults, sigs, myctr, insig, 
-                                hcs, alive, cs, pre, T, htmp, hg, hf, hheld, 
-                                entry, i, op, res, tmp, g, f, held, old, oldh, 
-                                popped, it, st, wi, wl, ph, scan, v, ipi, ret, 
-                                mret >>
+                /\ UNCHANGED << mem, sb, lock, registry, cursnap, qsr, wnlive, 
+                                regd, sleeping, woken, wkind, faults, sigs, 
+                                myctr, insig, hcs, alive, cs, pre, T, htmp, hg, 
+                                hf, hheld, entry, i, op, res, tmp, g, f, held, 
+                                old, oldh, popped, it, st, wi, wl, ph, scan, v, 
+                                ipi, ret, mret >>
 
 k_ldst(self) == /\ pc[self] = "k_ldst"
+                /\ Assert(it[self] \in wnlive, 
+                          "Failure of assertion at line 302, column 11.")
                 /\ st' = [st EXCEPT ![self] = Rd(self, (WnState(it[self])))]
                 /\ acc' = Ev(self, "ld", (WnState(it[self])), "-", "-", Rd(self, (WnState(it[self]))))
                 /\ IF HasBit(st'[self], RUNNING)
@@ -1477,26 +1554,31 @@ k_ldst(self) == /\ pc[self] = "k_ldst"
                            /\ pc' = [pc EXCEPT ![self] = "k_top"]
                       ELSE /\ pc' = [pc EXCEPT ![self] = "k_as"]
                            /\ it' = it
-                /\ UNCHANGED << mem, sb, lock, registry, cursnap, qsr, regd, 
-                                sleeping, woken, faults, sigs, myctr, insig, 
-                                hcs, alive, cs, pre, T, htmp, hg, hf, hheld, 
-                                entry, i, op, res, tmp, g, f, held, old, oldh, 
-                                popped, nx, wi, wl, ph, scan, v, ipi, ret, 
-                                mret >>
+                /\ UNCHANGED << mem, sb, lock, registry, cursnap, qsr, wnlive, 
+                                regd, sleeping, woken, wkind, faults, sigs, 
+                                myctr, insig, hcs, alive, cs, pre, T, htmp, hg, 
+                                hf, hheld, entry, i, op, res, tmp, g, f, held, 
+                                old, oldh, popped, nx, wi, wl, ph, scan, v, 
+                                ipi, ret, mret >>
 
 k_as(self) == /\ pc[self] = "k_as"
+              /\ Assert(it[self] \in wnlive, 
+                        "Failure of assertion at line 305, column 11.")
               /\ st' = [st EXCEPT ![self] = Rd(self, (WnState(it[self])))]
               /\ acc' = Ev(self, "ld", (WnState(it[self])), "-", "-", Rd(self, (WnState(it[self]))))
               /\ Assert(st'[self] = WAITING, 
-                        "Failure of assertion at line 283, column 11.")
+                        "Failure of assertion at line 307, column 11.")
               /\ pc' = [pc EXCEPT ![self] = "k_wk"]
-              /\ UNCHANGED << mem, sb, lock, registry, cursnap, qsr, regd, 
-                              sleeping, woken, faults, sigs, myctr, insig, hcs, 
-                              alive, cs, pre, T, htmp, hg, hf, hheld, entry, i, 
-                              op, res, tmp, g, f, held, old, oldh, popped, it, 
-                              nx, wi, wl, ph, scan, v, ipi, ret, mret >>
+              /\ UNCHANGED << mem, sb, lock, registry, cursnap, qsr, wnlive, 
+                              regd, sleeping, woken, wkind, faults, sigs, 
+                              myctr, insig, hcs, alive, cs, pre, T, htmp, hg, 
+                              hf, hheld, entry, i, op, res, tmp, g, f, held, 
+                              old, oldh, popped, it, nx, wi, wl, ph, scan, v, 
+                              ipi, ret, mret >>
 
 k_wk(self) == /\ pc[self] = "k_wk"
+              /\ Assert(it[self] \in wnlive, 
+                        "Failure of assertion at line 308, column 11.")
               /\ IF TSO
                     THEN /\ ~SBBlock \/ Len(sb[self]) < SBMax
                          /\ sb' = [sb EXCEPT ![self] = Append(sb[self], <<(WnState(it[self])), WAKEUP>>)]
@@ -1505,13 +1587,16 @@ k_wk(self) == /\ pc[self] = "k_wk"
                          /\ sb' = sb
               /\ acc' = Ev(self, "st", (WnState(it[self])), WAKEUP, "-", "-")
               /\ pc' = [pc EXCEPT ![self] = "k_ld2"]
-              /\ UNCHANGED << lock, registry, cursnap, qsr, regd, sleeping, 
-                              woken, faults, sigs, myctr, insig, hcs, alive, 
-                              cs, pre, T, htmp, hg, hf, hheld, entry, i, op, 
-                              res, tmp, g, f, held, old, oldh, popped, it, nx, 
-                              st, wi, wl, ph, scan, v, ipi, ret, mret >>
+              /\ UNCHANGED << lock, registry, cursnap, qsr, wnlive, regd, 
+                              sleeping, woken, wkind, faults, sigs, myctr, 
+                              insig, hcs, alive, cs, pre, T, htmp, hg, hf, 
+                              hheld, entry, i, op, res, tmp, g, f, held, old, 
+                              oldh, popped, it, nx, st, wi, wl, ph, scan, v, 
+                              ipi, ret, mret >>
 
 k_ld2(self) == /\ pc[self] = "k_ld2"
+               /\ Assert(it[self] \in wnlive, 
+                         "Failure of assertion at line 310, column 11.")
                /\ st' = [st EXCEPT ![self] = Rd(self, (WnState(it[self])))]
                /\ acc' = Ev(self, "ld", (WnState(it[self])), "-", "-", Rd(self, (WnState(it[self]))))
                /\ IF HasBit(st'[self], RUNNING)
@@ -1519,12 +1604,12 @@ k_ld2(self) == /\ pc[self] = "k_ld2"
                      ELSE /\ IF FutexMode = "compat"
                                 THEN /\ pc' = [pc EXCEPT ![self] = "kn_mb"]
                                 ELSE /\ pc' = [pc EXCEPT ![self] = "k_fw"]
-               /\ UNCHANGED << mem, sb, lock, registry, cursnap, qsr, regd, 
-                               sleeping, woken, faults, sigs, myctr, insig, 
-                               hcs, alive, cs, pre, T, htmp, hg, hf, hheld, 
-                               entry, i, op, res, tmp, g, f, held, old, oldh, 
-                               popped, it, nx, wi, wl, ph, scan, v, ipi, ret, 
-                               mret >>
+               /\ UNCHANGED << mem, sb, lock, registry, cursnap, qsr, wnlive, 
+                               regd, sleeping, woken, wkind, faults, sigs, 
+                               myctr, insig, hcs, alive, cs, pre, T, htmp, hg, 
+                               hf, hheld, entry, i, op, res, tmp, g, f, held, 
+                               old, oldh, popped, it, nx, wi, wl, ph, scan, v, 
+                               ipi, ret, mret >>
 
 k_fw(self) == /\ pc[self] = "k_fw"
               /\ Drained(self)
@@ -1540,80 +1625,85 @@ k_fw(self) == /\ pc[self] = "k_fw"
                     ELSE /\ acc' = Ev(self, "fwake", WnState(it[self]), "-", "-", "ENOSYS")
                          /\ pc' = [pc EXCEPT ![self] = "kc_mb"]
                          /\ woken' = woken
-              /\ UNCHANGED << mem, sb, lock, registry, cursnap, qsr, regd, 
-                              sleeping, faults, sigs, myctr, insig, hcs, alive, 
-                              cs, pre, T, htmp, hg, hf, hheld, entry, i, op, 
-                              res, tmp, g, f, held, old, oldh, popped, it, nx, 
-                              st, wi, wl, ph, scan, v, ipi, ret, mret >>
+              /\ UNCHANGED << mem, sb, lock, registry, cursnap, qsr, wnlive, 
+                              regd, sleeping, wkind, faults, sigs, myctr, 
+                              insig, hcs, alive, cs, pre, T, htmp, hg, hf, 
+                              hheld, entry, i, op, res, tmp, g, f, held, old, 
+                              oldh, popped, it, nx, st, wi, wl, ph, scan, v, 
+                              ipi, ret, mret >>
 
 kc_mb(self) == /\ pc[self] = "kc_mb"
                /\ Drained(self)
                /\ acc' = Ev(self, "mb", "-", "-", "-", "-")
                /\ pc' = [pc EXCEPT ![self] = "k_or"]
-               /\ UNCHANGED << mem, sb, lock, registry, cursnap, qsr, regd, 
-                               sleeping, woken, faults, sigs, myctr, insig, 
-                               hcs, alive, cs, pre, T, htmp, hg, hf, hheld, 
-                               entry, i, op, res, tmp, g, f, held, old, oldh, 
-                               popped, it, nx, st, wi, wl, ph, scan, v, ipi, 
-                               ret, mret >>
+               /\ UNCHANGED << mem, sb, lock, registry, cursnap, qsr, wnlive, 
+                               regd, sleeping, woken, wkind, faults, sigs, 
+                               myctr, insig, hcs, alive, cs, pre, T, htmp, hg, 
+                               hf, hheld, entry, i, op, res, tmp, g, f, held, 
+                               old, oldh, popped, it, nx, st, wi, wl, ph, scan, 
+                               v, ipi, ret, mret >>
 
 kn_mb(self) == /\ pc[self] = "kn_mb"
                /\ Drained(self)
                /\ acc' = Ev(self, "mb", "-", "-", "-", "-")
                /\ pc' = [pc EXCEPT ![self] = "kn_lock"]
-               /\ UNCHANGED << mem, sb, lock, registry, cursnap, qsr, regd, 
-                               sleeping, woken, faults, sigs, myctr, insig, 
-                               hcs, alive, cs, pre, T, htmp, hg, hf, hheld, 
-                               entry, i, op, res, tmp, g, f, held, old, oldh, 
-                               popped, it, nx, st, wi, wl, ph, scan, v, ipi, 
-                               ret, mret >>
+               /\ UNCHANGED << mem, sb, lock, registry, cursnap, qsr, wnlive, 
+                               regd, sleeping, woken, wkind, faults, sigs, 
+                               myctr, insig, hcs, alive, cs, pre, T, htmp, hg, 
+                               hf, hheld, entry, i, op, res, tmp, g, f, held, 
+                               old, oldh, popped, it, nx, st, wi, wl, ph, scan, 
+                               v, ipi, ret, mret >>
 
 kn_lock(self) == /\ pc[self] = "kn_lock"
                  /\ Drained(self) /\ lock["compat_lock"] = "free"
                  /\ lock' = [lock EXCEPT !["compat_lock"] = self]
                  /\ acc' = Ev(self, "lock", "compat_lock", "-", "-", "-")
                  /\ pc' = [pc EXCEPT ![self] = "kn_bc"]
-                 /\ UNCHANGED << mem, sb, registry, cursnap, qsr, regd, 
-                                 sleeping, woken, faults, sigs, myctr, insig, 
-                                 hcs, alive, cs, pre, T, htmp, hg, hf, hheld, 
-                                 entry, i, op, res, tmp, g, f, held, old, oldh, 
-                                 popped, it, nx, st, wi, wl, ph, scan, v, ipi, 
-                                 ret, mret >>
+                 /\ UNCHANGED << mem, sb, registry, cursnap, qsr, wnlive, regd, 
+                                 sleeping, woken, wkind, faults, sigs, myctr, 
+                                 insig, hcs, alive, cs, pre, T, htmp, hg, hf, 
+                                 hheld, entry, i, op, res, tmp, g, f, held, 
+                                 old, oldh, popped, it, nx, st, wi, wl, ph, 
+                                 scan, v, ipi, ret, mret >>
 
 kn_bc(self) == /\ pc[self] = "kn_bc"
                /\ Drained(self)
                /\ woken' = [t \in Threads |-> IF sleeping[t] = "compat_cond" THEN TRUE ELSE woken[t]]
                /\ acc' = Ev(self, "cbroadcast", "-", "-", "-", "-")
                /\ pc' = [pc EXCEPT ![self] = "kn_unl"]
-               /\ UNCHANGED << mem, sb, lock, registry, cursnap, qsr, regd, 
-                               sleeping, faults, sigs, myctr, insig, hcs, 
-                               alive, cs, pre, T, htmp, hg, hf, hheld, entry, 
-                               i, op, res, tmp, g, f, held, old, oldh, popped, 
-                               it, nx, st, wi, wl, ph, scan, v, ipi, ret, mret >>
+               /\ UNCHANGED << mem, sb, lock, registry, cursnap, qsr, wnlive, 
+                               regd, sleeping, wkind, faults, sigs, myctr, 
+                               insig, hcs, alive, cs, pre, T, htmp, hg, hf, 
+                               hheld, entry, i, op, res, tmp, g, f, held, old, 
+                               oldh, popped, it, nx, st, wi, wl, ph, scan, v, 
+                               ipi, ret, mret >>
 
 kn_unl(self) == /\ pc[self] = "kn_unl"
                 /\ Drained(self)
                 /\ lock' = [lock EXCEPT !["compat_lock"] = "free"]
                 /\ acc' = Ev(self, "unlock", "compat_lock", "-", "-", "-")
                 /\ pc' = [pc EXCEPT ![self] = "k_or"]
-                /\ UNCHANGED << mem, sb, registry, cursnap, qsr, regd, 
-                                sleeping, woken, faults, sigs, myctr, insig, 
-                                hcs, alive, cs, pre, T, htmp, hg, hf, hheld, 
-                                entry, i, op, res, tmp, g, f, held, old, oldh, 
-                                popped, it, nx, st, wi, wl, ph, scan, v, ipi, 
-                                ret, mret >>
+                /\ UNCHANGED << mem, sb, registry, cursnap, qsr, wnlive, regd, 
+                                sleeping, woken, wkind, faults, sigs, myctr, 
+                                insig, hcs, alive, cs, pre, T, htmp, hg, hf, 
+                                hheld, entry, i, op, res, tmp, g, f, held, old, 
+                                oldh, popped, it, nx, st, wi, wl, ph, scan, v, 
+                                ipi, ret, mret >>
 
 k_or(self) == /\ pc[self] = "k_or"
+              /\ Assert(it[self] \in wnlive, 
+                        "Failure of assertion at line 330, column 11.")
               /\ Drained(self)
               /\ /\ acc' = Ev(self, "or", WnState(it[self]), TEARDOWN, "-", OrBit(mem[WnState(it[self])], TEARDOWN))
                  /\ mem' = [mem EXCEPT ![WnState(it[self])] = OrBit(mem[WnState(it[self])], TEARDOWN)]
               /\ it' = [it EXCEPT ![self] = nx[self]]
               /\ pc' = [pc EXCEPT ![self] = "k_top"]
-              /\ UNCHANGED << sb, lock, registry, cursnap, qsr, regd, sleeping, 
-                              woken, faults, sigs, myctr, insig, hcs, alive, 
-                              cs, pre, T, htmp, hg, hf, hheld, entry, i, op, 
-                              res, tmp, g, f, held, old, oldh, popped, nx, st, 
-                              wi, wl, ph, scan, v, ipi, ret, mret >>
+              /\ UNCHANGED << sb, lock, registry, cursnap, qsr, wnlive, regd, 
+                              sleeping, woken, wkind, faults, sigs, myctr, 
+                              insig, hcs, alive, cs, pre, T, htmp, hg, hf, 
+                              hheld, entry, i, op, res, tmp, g, f, held, old, 
+                              oldh, popped, nx, st, wi, wl, ph, scan, v, ipi, 
+                              ret, mret >>
 
 a_ld1(self) == /\ pc[self] = "a_ld1"
                /\ st' = [st EXCEPT ![self] = Rd(self, (WnState(Wn(self))))]
@@ -1625,11 +1715,12 @@ a_ld1(self) == /\ pc[self] = "a_ld1"
                           /\ IF wi'[self] < WaitAttempts
                                 THEN /\ pc' = [pc EXCEPT ![self] = "a_ld1"]
                                 ELSE /\ pc' = [pc EXCEPT ![self] = "a_ld2"]
-               /\ UNCHANGED << mem, sb, lock, registry, cursnap, qsr, regd, 
-                               sleeping, woken, faults, sigs, myctr, insig, 
-                               hcs, alive, cs, pre, T, htmp, hg, hf, hheld, 
-                               entry, i, op, res, tmp, g, f, held, old, oldh, 
-                               popped, it, nx, wl, ph, scan, v, ipi, ret, mret >>
+               /\ UNCHANGED << mem, sb, lock, registry, cursnap, qsr, wnlive, 
+                               regd, sleeping, woken, wkind, faults, sigs, 
+                               myctr, insig, hcs, alive, cs, pre, T, htmp, hg, 
+                               hf, hheld, entry, i, op, res, tmp, g, f, held, 
+                               old, oldh, popped, it, nx, wl, ph, scan, v, ipi, 
+                               ret, mret >>
 
 a_ld2(self) == /\ pc[self] = "a_ld2"
                /\ st' = [st EXCEPT ![self] = Rd(self, (WnState(Wn(self))))]
@@ -1639,12 +1730,12 @@ a_ld2(self) == /\ pc[self] = "a_ld2"
                      ELSE /\ IF FutexMode = "compat"
                                 THEN /\ pc' = [pc EXCEPT ![self] = "an_mb"]
                                 ELSE /\ pc' = [pc EXCEPT ![self] = "a_fw"]
-               /\ UNCHANGED << mem, sb, lock, registry, cursnap, qsr, regd, 
-                               sleeping, woken, faults, sigs, myctr, insig, 
-                               hcs, alive, cs, pre, T, htmp, hg, hf, hheld, 
-                               entry, i, op, res, tmp, g, f, held, old, oldh, 
-                               popped, it, nx, wi, wl, ph, scan, v, ipi, ret, 
-                               mret >>
+               /\ UNCHANGED << mem, sb, lock, registry, cursnap, qsr, wnlive, 
+                               regd, sleeping, woken, wkind, faults, sigs, 
+                               myctr, insig, hcs, alive, cs, pre, T, htmp, hg, 
+                               hf, hheld, entry, i, op, res, tmp, g, f, held, 
+                               old, oldh, popped, it, nx, wi, wl, ph, scan, v, 
+                               ipi, ret, mret >>
 
 a_fw(self) == /\ pc[self] = "a_fw"
               /\ Drained(self)
@@ -1660,41 +1751,35 @@ a_fw(self) == /\ pc[self] = "a_fw"
                                     /\ woken' = [woken EXCEPT ![self] = FALSE]
                                     /\ acc' = Ev(self, "fwait", WnState(Wn(self)), WAITING, "-", "SLEEP")
                                     /\ pc' = [pc EXCEPT ![self] = "a_wk"]
-              /\ UNCHANGED << mem, sb, lock, registry, cursnap, qsr, regd, 
-                              faults, sigs, myctr, insig, hcs, alive, cs, pre, 
-                              T, htmp, hg, hf, hheld, entry, i, op, res, tmp, 
-                              g, f, held, old, oldh, popped, it, nx, st, wi, 
-                              wl, ph, scan, v, ipi, ret, mret >>
+              /\ UNCHANGED << mem, sb, lock, registry, cursnap, qsr, wnlive, 
+                              regd, wkind, faults, sigs, myctr, insig, hcs, 
+                              alive, cs, pre, T, htmp, hg, hf, hheld, entry, i, 
+                              op, res, tmp, g, f, held, old, oldh, popped, it, 
+                              nx, st, wi, wl, ph, scan, v, ipi, ret, mret >>
 
 a_wk(self) == /\ pc[self] = "a_wk"
-              /\ \/ /\ woken[self]
-                    /\ acc' = Ev(self, "fwoke", WnState(Wn(self)), "-", "-", "WAKE")
-                    /\ UNCHANGED faults
-                 \/ /\ ~woken[self] /\ faults < FaultBudget
-                    /\ faults' = faults + 1
-                    /\ acc' = Ev(self, "fwoke", WnState(Wn(self)), "-", "-", "SPURIOUS")
-                 \/ /\ ~woken[self] /\ faults < FaultBudget
-                    /\ faults' = faults + 1
-                    /\ acc' = Ev(self, "fwoke", WnState(Wn(self)), "-", "-", "EINTR")
+              /\ woken[self]
+              /\ acc' = Ev(self, "fwoke", WnState(Wn(self)), "-", "-", wkind[self])
               /\ sleeping' = [sleeping EXCEPT ![self] = "none"]
               /\ woken' = [woken EXCEPT ![self] = FALSE]
+              /\ wkind' = [wkind EXCEPT ![self] = "WAKE"]
               /\ pc' = [pc EXCEPT ![self] = "a_ld2"]
-              /\ UNCHANGED << mem, sb, lock, registry, cursnap, qsr, regd, 
-                              sigs, myctr, insig, hcs, alive, cs, pre, T, htmp, 
-                              hg, hf, hheld, entry, i, op, res, tmp, g, f, 
-                              held, old, oldh, popped, it, nx, st, wi, wl, ph, 
-                              scan, v, ipi, ret, mret >>
+              /\ UNCHANGED << mem, sb, lock, registry, cursnap, qsr, wnlive, 
+                              regd, faults, sigs, myctr, insig, hcs, alive, cs, 
+                              pre, T, htmp, hg, hf, hheld, entry, i, op, res, 
+                              tmp, g, f, held, old, oldh, popped, it, nx, st, 
+                              wi, wl, ph, scan, v, ipi, ret, mret >>
 
 ac_mb(self) == /\ pc[self] = "ac_mb"
                /\ Drained(self)
                /\ acc' = Ev(self, "mb", "-", "-", "-", "-")
                /\ pc' = [pc EXCEPT ![self] = "ac_ld"]
-               /\ UNCHANGED << mem, sb, lock, registry, cursnap, qsr, regd, 
-                               sleeping, woken, faults, sigs, myctr, insig, 
-                               hcs, alive, cs, pre, T, htmp, hg, hf, hheld, 
-                               entry, i, op, res, tmp, g, f, held, old, oldh, 
-                               popped, it, nx, st, wi, wl, ph, scan, v, ipi, 
-                               ret, mret >>
+               /\ UNCHANGED << mem, sb, lock, registry, cursnap, qsr, wnlive, 
+                               regd, sleeping, woken, wkind, faults, sigs, 
+                               myctr, insig, hcs, alive, cs, pre, T, htmp, hg, 
+                               hf, hheld, entry, i, op, res, tmp, g, f, held, 
+                               old, oldh, popped, it, nx, st, wi, wl, ph, scan, 
+                               v, ipi, ret, mret >>
 
 ac_ld(self) == /\ pc[self] = "ac_ld"
                /\ st' = [st EXCEPT ![self] = Rd(self, (WnState(Wn(self))))]
@@ -1702,35 +1787,35 @@ ac_ld(self) == /\ pc[self] = "ac_ld"
                /\ IF st'[self] = WAITING
                      THEN /\ pc' = [pc EXCEPT ![self] = "ac_ld"]
                      ELSE /\ pc' = [pc EXCEPT ![self] = "a_ld2"]
-               /\ UNCHANGED << mem, sb, lock, registry, cursnap, qsr, regd, 
-                               sleeping, woken, faults, sigs, myctr, insig, 
-                               hcs, alive, cs, pre, T, htmp, hg, hf, hheld, 
-                               entry, i, op, res, tmp, g, f, held, old, oldh, 
-                               popped, it, nx, wi, wl, ph, scan, v, ipi, ret, 
-                               mret >>
+               /\ UNCHANGED << mem, sb, lock, registry, cursnap, qsr, wnlive, 
+                               regd, sleeping, woken, wkind, faults, sigs, 
+                               myctr, insig, hcs, alive, cs, pre, T, htmp, hg, 
+                               hf, hheld, entry, i, op, res, tmp, g, f, held, 
+                               old, oldh, popped, it, nx, wi, wl, ph, scan, v, 
+                               ipi, ret, mret >>
 
 an_mb(self) == /\ pc[self] = "an_mb"
                /\ Drained(self)
                /\ acc' = Ev(self, "mb", "-", "-", "-", "-")
                /\ pc' = [pc EXCEPT ![self] = "an_lock"]
-               /\ UNCHANGED << mem, sb, lock, registry, cursnap, qsr, regd, 
-                               sleeping, woken, faults, sigs, myctr, insig, 
-                               hcs, alive, cs, pre, T, htmp, hg, hf, hheld, 
-                               entry, i, op, res, tmp, g, f, held, old, oldh, 
-                               popped, it, nx, st, wi, wl, ph, scan, v, ipi, 
-                               ret, mret >>
+               /\ UNCHANGED << mem, sb, lock, registry, cursnap, qsr, wnlive, 
+                               regd, sleeping, woken, wkind, faults, sigs, 
+                               myctr, insig, hcs, alive, cs, pre, T, htmp, hg, 
+                               hf, hheld, entry, i, op, res, tmp, g, f, held, 
+                               old, oldh, popped, it, nx, st, wi, wl, ph, scan, 
+                               v, ipi, ret, mret >>
 
 an_lock(self) == /\ pc[self] = "an_lock"
                  /\ Drained(self) /\ lock["compat_lock"] = "free"
                  /\ lock' = [lock EXCEPT !["compat_lock"] = self]
                  /\ acc' = Ev(self, "lock", "compat_lock", "-", "-", "-")
                  /\ pc' = [pc EXCEPT ![self] = "an_ld"]
-                 /\ UNCHANGED << mem, sb, registry, cursnap, qsr, regd, 
-                                 sleeping, woken, faults, sigs, myctr, insig, 
-                                 hcs, alive, cs, pre, T, htmp, hg, hf, hheld, 
-                                 entry, i, op, res, tmp, g, f, held, old, oldh, 
-                                 popped, it, nx, st, wi, wl, ph, scan, v, ipi, 
-                                 ret, mret >>
+                 /\ UNCHANGED << mem, sb, registry, cursnap, qsr, wnlive, regd, 
+                                 sleeping, woken, wkind, faults, sigs, myctr, 
+                                 insig, hcs, alive, cs, pre, T, htmp, hg, hf, 
+                                 hheld, entry, i, op, res, tmp, g, f, held, 
+                                 old, oldh, popped, it, nx, st, wi, wl, ph, 
+                                 scan, v, ipi, ret, mret >>
 
 an_ld(self) == /\ pc[self] = "an_ld"
                /\ st' = [st EXCEPT ![self] = Rd(self, (WnState(Wn(self))))]
@@ -1738,12 +1823,12 @@ an_ld(self) == /\ pc[self] = "an_ld"
                /\ IF st'[self] # WAITING
                      THEN /\ pc' = [pc EXCEPT ![self] = "an_unl"]
                      ELSE /\ pc' = [pc EXCEPT ![self] = "an_cw"]
-               /\ UNCHANGED << mem, sb, lock, registry, cursnap, qsr, regd, 
-                               sleeping, woken, faults, sigs, myctr, insig, 
-                               hcs, alive, cs, pre, T, htmp, hg, hf, hheld, 
-                               entry, i, op, res, tmp, g, f, held, old, oldh, 
-                               popped, it, nx, wi, wl, ph, scan, v, ipi, ret, 
-                               mret >>
+               /\ UNCHANGED << mem, sb, lock, registry, cursnap, qsr, wnlive, 
+                               regd, sleeping, woken, wkind, faults, sigs, 
+                               myctr, insig, hcs, alive, cs, pre, T, htmp, hg, 
+                               hf, hheld, entry, i, op, res, tmp, g, f, held, 
+                               old, oldh, popped, it, nx, wi, wl, ph, scan, v, 
+                               ipi, ret, mret >>
 
 an_cw(self) == /\ pc[self] = "an_cw"
                /\ Drained(self)
@@ -1752,49 +1837,48 @@ an_cw(self) == /\ pc[self] = "an_cw"
                /\ woken' = [woken EXCEPT ![self] = FALSE]
                /\ acc' = Ev(self, "cwait", "compat_lock", "-", "-", "-")
                /\ pc' = [pc EXCEPT ![self] = "an_cwk"]
-               /\ UNCHANGED << mem, sb, registry, cursnap, qsr, regd, faults, 
-                               sigs, myctr, insig, hcs, alive, cs, pre, T, 
-                               htmp, hg, hf, hheld, entry, i, op, res, tmp, g, 
-                               f, held, old, oldh, popped, it, nx, st, wi, wl, 
-                               ph, scan, v, ipi, ret, mret >>
+               /\ UNCHANGED << mem, sb, registry, cursnap, qsr, wnlive, regd, 
+                               wkind, faults, sigs, myctr, insig, hcs, alive, 
+                               cs, pre, T, htmp, hg, hf, hheld, entry, i, op, 
+                               res, tmp, g, f, held, old, oldh, popped, it, nx, 
+                               st, wi, wl, ph, scan, v, ipi, ret, mret >>
 
 an_cwk(self) == /\ pc[self] = "an_cwk"
-                /\ \/ /\ woken[self]
-                      /\ UNCHANGED faults
-                   \/ /\ ~woken[self] /\ faults < FaultBudget
-                      /\ faults' = faults + 1
+                /\ woken[self]
                 /\ sleeping' = [sleeping EXCEPT ![self] = "none"]
                 /\ woken' = [woken EXCEPT ![self] = FALSE]
+                /\ wkind' = [wkind EXCEPT ![self] = "WAKE"]
                 /\ pc' = [pc EXCEPT ![self] = "an_relk"]
                 /\ UNCHANGED << mem, sb, lock, acc, registry, cursnap, qsr, 
-                                regd, sigs, myctr, insig, hcs, alive, cs, pre, 
-                                T, htmp, hg, hf, hheld, entry, i, op, res, tmp, 
-                                g, f, held, old, oldh, popped, it, nx, st, wi, 
-                                wl, ph, scan, v, ipi, ret, mret >>
+                                wnlive, regd, faults, sigs, myctr, insig, hcs, 
+                                alive, cs, pre, T, htmp, hg, hf, hheld, entry, 
+                                i, op, res, tmp, g, f, held, old, oldh, popped, 
+                                it, nx, st, wi, wl, ph, scan, v, ipi, ret, 
+                                mret >>
 
 an_relk(self) == /\ pc[self] = "an_relk"
                  /\ Drained(self) /\ lock["compat_lock"] = "free"
                  /\ lock' = [lock EXCEPT !["compat_lock"] = self]
                  /\ acc' = Ev(self, "cwoke", "compat_lock", "-", "-", "-")
                  /\ pc' = [pc EXCEPT ![self] = "an_ld"]
-                 /\ UNCHANGED << mem, sb, registry, cursnap, qsr, regd, 
-                                 sleeping, woken, faults, sigs, myctr, insig, 
-                                 hcs, alive, cs, pre, T, htmp, hg, hf, hheld, 
-                                 entry, i, op, res, tmp, g, f, held, old, oldh, 
-                                 popped, it, nx, st, wi, wl, ph, scan, v, ipi, 
-                                 ret, mret >>
+                 /\ UNCHANGED << mem, sb, registry, cursnap, qsr, wnlive, regd, 
+                                 sleeping, woken, wkind, faults, sigs, myctr, 
+                                 insig, hcs, alive, cs, pre, T, htmp, hg, hf, 
+                                 hheld, entry, i, op, res, tmp, g, f, held, 
+                                 old, oldh, popped, it, nx, st, wi, wl, ph, 
+                                 scan, v, ipi, ret, mret >>
 
 an_unl(self) == /\ pc[self] = "an_unl"
                 /\ Drained(self)
                 /\ lock' = [lock EXCEPT !["compat_lock"] = "free"]
                 /\ acc' = Ev(self, "unlock", "compat_lock", "-", "-", "-")
                 /\ pc' = [pc EXCEPT ![self] = "a_ld2"]
-                /\ UNCHANGED << mem, sb, registry, cursnap, qsr, regd, 
-                                sleeping, woken, faults, sigs, myctr, insig, 
-                                hcs, alive, cs, pre, T, htmp, hg, hf, hheld, 
-                                entry, i, op, res, tmp, g, f, held, old, oldh, 
-                                popped, it, nx, st, wi, wl, ph, scan, v, ipi, 
-                                ret, mret >>
+                /\ UNCHANGED << mem, sb, registry, cursnap, qsr, wnlive, regd, 
+                                sleeping, woken, wkind, faults, sigs, myctr, 
+                                insig, hcs, alive, cs, pre, T, htmp, hg, hf, 
+                                hheld, entry, i, op, res, tmp, g, f, held, old, 
+                                oldh, popped, it, nx, st, wi, wl, ph, scan, v, 
+                                ipi, ret, mret >>
 
 a_or(self) == /\ pc[self] = "a_or"
               /\ Drained(self)
@@ -1802,11 +1886,12 @@ a_or(self) == /\ pc[self] = "a_or"
                  /\ mem' = [mem EXCEPT ![WnState(Wn(self))] = OrBit(mem[WnState(Wn(self))], RUNNING)]
               /\ wi' = [wi EXCEPT ![self] = 0]
               /\ pc' = [pc EXCEPT ![self] = "a_ld3"]
-              /\ UNCHANGED << sb, lock, registry, cursnap, qsr, regd, sleeping, 
-                              woken, faults, sigs, myctr, insig, hcs, alive, 
-                              cs, pre, T, htmp, hg, hf, hheld, entry, i, op, 
-                              res, tmp, g, f, held, old, oldh, popped, it, nx, 
-                              st, wl, ph, scan, v, ipi, ret, mret >>
+              /\ UNCHANGED << sb, lock, registry, cursnap, qsr, wnlive, regd, 
+                              sleeping, woken, wkind, faults, sigs, myctr, 
+                              insig, hcs, alive, cs, pre, T, htmp, hg, hf, 
+                              hheld, entry, i, op, res, tmp, g, f, held, old, 
+                              oldh, popped, it, nx, st, wl, ph, scan, v, ipi, 
+                              ret, mret >>
 
 a_ld3(self) == /\ pc[self] = "a_ld3"
                /\ st' = [st EXCEPT ![self] = Rd(self, (WnState(Wn(self))))]
@@ -1818,11 +1903,12 @@ a_ld3(self) == /\ pc[self] = "a_ld3"
                           /\ IF wi'[self] < WaitAttempts
                                 THEN /\ pc' = [pc EXCEPT ![self] = "a_ld3"]
                                 ELSE /\ pc' = [pc EXCEPT ![self] = "a_ld4"]
-               /\ UNCHANGED << mem, sb, lock, registry, cursnap, qsr, regd, 
-                               sleeping, woken, faults, sigs, myctr, insig, 
-                               hcs, alive, cs, pre, T, htmp, hg, hf, hheld, 
-                               entry, i, op, res, tmp, g, f, held, old, oldh, 
-                               popped, it, nx, wl, ph, scan, v, ipi, ret, mret >>
+               /\ UNCHANGED << mem, sb, lock, registry, cursnap, qsr, wnlive, 
+                               regd, sleeping, woken, wkind, faults, sigs, 
+                               myctr, insig, hcs, alive, cs, pre, T, htmp, hg, 
+                               hf, hheld, entry, i, op, res, tmp, g, f, held, 
+                               old, oldh, popped, it, nx, wl, ph, scan, v, ipi, 
+                               ret, mret >>
 
 a_ld4(self) == /\ pc[self] = "a_ld4"
                /\ st' = [st EXCEPT ![self] = Rd(self, (WnState(Wn(self))))]
@@ -1830,48 +1916,50 @@ a_ld4(self) == /\ pc[self] = "a_ld4"
                /\ IF ~HasBit(st'[self], TEARDOWN)
                      THEN /\ pc' = [pc EXCEPT ![self] = "a_ld4"]
                      ELSE /\ pc' = [pc EXCEPT ![self] = "a_ld5"]
-               /\ UNCHANGED << mem, sb, lock, registry, cursnap, qsr, regd, 
-                               sleeping, woken, faults, sigs, myctr, insig, 
-                               hcs, alive, cs, pre, T, htmp, hg, hf, hheld, 
-                               entry, i, op, res, tmp, g, f, held, old, oldh, 
-                               popped, it, nx, wi, wl, ph, scan, v, ipi, ret, 
-                               mret >>
+               /\ UNCHANGED << mem, sb, lock, registry, cursnap, qsr, wnlive, 
+                               regd, sleeping, woken, wkind, faults, sigs, 
+                               myctr, insig, hcs, alive, cs, pre, T, htmp, hg, 
+                               hf, hheld, entry, i, op, res, tmp, g, f, held, 
+                               old, oldh, popped, it, nx, wi, wl, ph, scan, v, 
+                               ipi, ret, mret >>
 
 a_ld5(self) == /\ pc[self] = "a_ld5"
                /\ st' = [st EXCEPT ![self] = Rd(self, (WnState(Wn(self))))]
                /\ acc' = Ev(self, "ld", (WnState(Wn(self))), "-", "-", Rd(self, (WnState(Wn(self)))))
                /\ Assert(HasBit(st'[self], TEARDOWN), 
-                         "Failure of assertion at line 352, column 11.")
+                         "Failure of assertion at line 377, column 11.")
                /\ pc' = [pc EXCEPT ![self] = "s_ret"]
-               /\ UNCHANGED << mem, sb, lock, registry, cursnap, qsr, regd, 
-                               sleeping, woken, faults, sigs, myctr, insig, 
-                               hcs, alive, cs, pre, T, htmp, hg, hf, hheld, 
-                               entry, i, op, res, tmp, g, f, held, old, oldh, 
-                               popped, it, nx, wi, wl, ph, scan, v, ipi, ret, 
-                               mret >>
+               /\ UNCHANGED << mem, sb, lock, registry, cursnap, qsr, wnlive, 
+                               regd, sleeping, woken, wkind, faults, sigs, 
+                               myctr, insig, hcs, alive, cs, pre, T, htmp, hg, 
+                               hf, hheld, entry, i, op, res, tmp, g, f, held, 
+                               old, oldh, popped, it, nx, wi, wl, ph, scan, v, 
+                               ipi, ret, mret >>
 
 s_ret(self) == /\ pc[self] = "s_ret"
                /\ Assert(pre[self] \cap OpenCS = {}, 
-                         "Failure of assertion at line 355, column 11.")
+                         "Failure of assertion at line 380, column 11.")
                /\ mem' = [mem EXCEPT ![WnNext(Wn(self))] = NULL,
                                      ![WnState(Wn(self))] = 0]
+               /\ wnlive' = wnlive \ {Wn(self)}
                /\ pre' = [pre EXCEPT ![self] = {}]
                /\ pc' = [pc EXCEPT ![self] = "t_ret"]
                /\ UNCHANGED << sb, lock, acc, registry, cursnap, qsr, regd, 
-                               sleeping, woken, faults, sigs, myctr, insig, 
-                               hcs, alive, cs, T, htmp, hg, hf, hheld, entry, 
-                               i, op, res, tmp, g, f, held, old, oldh, popped, 
-                               it, nx, st, wi, wl, ph, scan, v, ipi, ret, mret >>
+                               sleeping, woken, wkind, faults, sigs, myctr, 
+                               insig, hcs, alive, cs, T, htmp, hg, hf, hheld, 
+                               entry, i, op, res, tmp, g, f, held, old, oldh, 
+                               popped, it, nx, st, wi, wl, ph, scan, v, ipi, 
+                               ret, mret >>
 
 w_top(self) == /\ pc[self] = "w_top"
                /\ wl' = [wl EXCEPT ![self] = 0]
                /\ pc' = [pc EXCEPT ![self] = "w_loop"]
                /\ UNCHANGED << mem, sb, lock, acc, registry, cursnap, qsr, 
-                               regd, sleeping, woken, faults, sigs, myctr, 
-                               insig, hcs, alive, cs, pre, T, htmp, hg, hf, 
-                               hheld, entry, i, op, res, tmp, g, f, held, old, 
-                               oldh, popped, it, nx, st, wi, ph, scan, v, ipi, 
-                               ret, mret >>
+                               wnlive, regd, sleeping, woken, wkind, faults, 
+                               sigs, myctr, insig, hcs, alive, cs, pre, T, 
+                               htmp, hg, hf, hheld, entry, i, op, res, tmp, g, 
+                               f, held, old, oldh, popped, it, nx, st, wi, ph, 
+                               scan, v, ipi, ret, mret >>
 
 w_loop(self) == /\ pc[self] = "w_loop"
                 /\ IF wl[self] < QSAttempts
@@ -1882,60 +1970,61 @@ w_loop(self) == /\ pc[self] = "w_loop"
                       THEN /\ pc' = [pc EXCEPT ![self] = "w_scan0"]
                       ELSE /\ pc' = [pc EXCEPT ![self] = "w_dec"]
                 /\ UNCHANGED << mem, sb, lock, acc, registry, cursnap, qsr, 
-                                regd, sleeping, woken, faults, sigs, myctr, 
-                                insig, hcs, alive, cs, pre, T, htmp, hg, hf, 
-                                hheld, entry, i, op, res, tmp, g, f, held, old, 
-                                oldh, popped, it, nx, st, wi, ph, scan, v, ipi, 
-                                ret, mret >>
+                                wnlive, regd, sleeping, woken, wkind, faults, 
+                                sigs, myctr, insig, hcs, alive, cs, pre, T, 
+                                htmp, hg, hf, hheld, entry, i, op, res, tmp, g, 
+                                f, held, old, oldh, popped, it, nx, st, wi, ph, 
+                                scan, v, ipi, ret, mret >>
 
 w_dec(self) == /\ pc[self] = "w_dec"
                /\ Drained(self)
                /\ /\ acc' = Ev(self, "dec", "gp_futex", "-", "-", mem["gp_futex"] - 1)
                   /\ mem' = [mem EXCEPT !["gp_futex"] = mem["gp_futex"] - 1]
                /\ pc' = [pc EXCEPT ![self] = "w_mm"]
-               /\ UNCHANGED << sb, lock, registry, cursnap, qsr, regd, 
-                               sleeping, woken, faults, sigs, myctr, insig, 
-                               hcs, alive, cs, pre, T, htmp, hg, hf, hheld, 
-                               entry, i, op, res, tmp, g, f, held, old, oldh, 
-                               popped, it, nx, st, wi, wl, ph, scan, v, ipi, 
-                               ret, mret >>
+               /\ UNCHANGED << sb, lock, registry, cursnap, qsr, wnlive, regd, 
+                               sleeping, woken, wkind, faults, sigs, myctr, 
+                               insig, hcs, alive, cs, pre, T, htmp, hg, hf, 
+                               hheld, entry, i, op, res, tmp, g, f, held, old, 
+                               oldh, popped, it, nx, st, wi, wl, ph, scan, v, 
+                               ipi, ret, mret >>
 
 w_mm(self) == /\ pc[self] = "w_mm"
               /\ mret' = [mret EXCEPT ![self] = "w_scan0"]
               /\ IF "w_mm" \in Skip
                     THEN /\ pc' = [pc EXCEPT ![self] = "w_scan0"]
                     ELSE /\ pc' = [pc EXCEPT ![self] = "master"]
-              /\ UNCHANGED << mem, sb, lock, acc, registry, cursnap, qsr, regd, 
-                              sleeping, woken, faults, sigs, myctr, insig, hcs, 
-                              alive, cs, pre, T, htmp, hg, hf, hheld, entry, i, 
-                              op, res, tmp, g, f, held, old, oldh, popped, it, 
-                              nx, st, wi, wl, ph, scan, v, ipi, ret >>
+              /\ UNCHANGED << mem, sb, lock, acc, registry, cursnap, qsr, 
+                              wnlive, regd, sleeping, woken, wkind, faults, 
+                              sigs, myctr, insig, hcs, alive, cs, pre, T, htmp, 
+                              hg, hf, hheld, entry, i, op, res, tmp, g, f, 
+                              held, old, oldh, popped, it, nx, st, wi, wl, ph, 
+                              scan, v, ipi, ret >>
 
 w_scan0(self) == /\ pc[self] = "w_scan0"
                  /\ scan' = [scan EXCEPT ![self] = IF ph[self] = 1 THEN registry ELSE cursnap]
                  /\ pc' = [pc EXCEPT ![self] = "w_scan"]
                  /\ UNCHANGED << mem, sb, lock, acc, registry, cursnap, qsr, 
-                                 regd, sleeping, woken, faults, sigs, myctr, 
-                                 insig, hcs, alive, cs, pre, T, htmp, hg, hf, 
-                                 hheld, entry, i, op, res, tmp, g, f, held, 
-                                 old, oldh, popped, it, nx, st, wi, wl, ph, v, 
-                                 ipi, ret, mret >>
+                                 wnlive, regd, sleeping, woken, wkind, faults, 
+                                 sigs, myctr, insig, hcs, alive, cs, pre, T, 
+                                 htmp, hg, hf, hheld, entry, i, op, res, tmp, 
+                                 g, f, held, old, oldh, popped, it, nx, st, wi, 
+                                 wl, ph, v, ipi, ret, mret >>
 
 w_scan(self) == /\ pc[self] = "w_scan"
                 /\ IF scan[self] = {}
                       THEN /\ pc' = [pc EXCEPT ![self] = "w_chk"]
                       ELSE /\ pc' = [pc EXCEPT ![self] = "w_ldr"]
                 /\ UNCHANGED << mem, sb, lock, acc, registry, cursnap, qsr, 
-                                regd, sleeping, woken, faults, sigs, myctr, 
-                                insig, hcs, alive, cs, pre, T, htmp, hg, hf, 
-                                hheld, entry, i, op, res, tmp, g, f, held, old, 
-                                oldh, popped, it, nx, st, wi, wl, ph, scan, v, 
-                                ipi, ret, mret >>
+                                wnlive, regd, sleeping, woken, wkind, faults, 
+                                sigs, myctr, insig, hcs, alive, cs, pre, T, 
+                                htmp, hg, hf, hheld, entry, i, op, res, tmp, g, 
+                                f, held, old, oldh, popped, it, nx, st, wi, wl, 
+                                ph, scan, v, ipi, ret, mret >>
 
 w_ldr(self) == /\ pc[self] = "w_ldr"
                /\ \E r \in scan[self]:
                     /\ Assert(r \in regd, 
-                              "Failure of assertion at line 370, column 13.")
+                              "Failure of assertion at line 396, column 13.")
                     /\ v' = [v EXCEPT ![self] = Rd(self, Rctr(r))]
                     /\ acc' = Ev(self, "ld", Rctr(r), "-", "-", Rd(self, Rctr(r)))
                     /\ scan' = [scan EXCEPT ![self] = scan[self] \ {r}]
@@ -1958,11 +2047,11 @@ w_ldr(self) == /\ pc[self] = "w_ldr"
                                           /\ UNCHANGED << registry, cursnap, 
                                                           qsr >>
                /\ pc' = [pc EXCEPT ![self] = "w_scan"]
-               /\ UNCHANGED << mem, sb, lock, regd, sleeping, woken, faults, 
-                               sigs, myctr, insig, hcs, alive, cs, pre, T, 
-                               htmp, hg, hf, hheld, entry, i, op, res, tmp, g, 
-                               f, held, old, oldh, popped, it, nx, st, wi, wl, 
-                               ph, ipi, ret, mret >>
+               /\ UNCHANGED << mem, sb, lock, wnlive, regd, sleeping, woken, 
+                               wkind, faults, sigs, myctr, insig, hcs, alive, 
+                               cs, pre, T, htmp, hg, hf, hheld, entry, i, op, 
+                               res, tmp, g, f, held, old, oldh, popped, it, nx, 
+                               st, wi, wl, ph, ipi, ret, mret >>
 
 w_chk(self) == /\ pc[self] = "w_chk"
                /\ IF (IF ph[self] = 1 THEN registry ELSE cursnap) # {}
@@ -1971,11 +2060,11 @@ w_chk(self) == /\ pc[self] = "w_chk"
                                 THEN /\ pc' = [pc EXCEPT ![self] = "w_done"]
                                 ELSE /\ pc' = [pc EXCEPT ![self] = "w_mm2"]
                /\ UNCHANGED << mem, sb, lock, acc, registry, cursnap, qsr, 
-                               regd, sleeping, woken, faults, sigs, myctr, 
-                               insig, hcs, alive, cs, pre, T, htmp, hg, hf, 
-                               hheld, entry, i, op, res, tmp, g, f, held, old, 
-                               oldh, popped, it, nx, st, wi, wl, ph, scan, v, 
-                               ipi, ret, mret >>
+                               wnlive, regd, sleeping, woken, wkind, faults, 
+                               sigs, myctr, insig, hcs, alive, cs, pre, T, 
+                               htmp, hg, hf, hheld, entry, i, op, res, tmp, g, 
+                               f, held, old, oldh, popped, it, nx, st, wi, wl, 
+                               ph, scan, v, ipi, ret, mret >>
 
 w_mm2(self) == /\ pc[self] = "w_mm2"
                /\ mret' = [mret EXCEPT ![self] = "w_st0"]
@@ -1983,11 +2072,11 @@ w_mm2(self) == /\ pc[self] = "w_mm2"
                      THEN /\ pc' = [pc EXCEPT ![self] = "w_st0"]
                      ELSE /\ pc' = [pc EXCEPT ![self] = "master"]
                /\ UNCHANGED << mem, sb, lock, acc, registry, cursnap, qsr, 
-                               regd, sleeping, woken, faults, sigs, myctr, 
-                               insig, hcs, alive, cs, pre, T, htmp, hg, hf, 
-                               hheld, entry, i, op, res, tmp, g, f, held, old, 
-                               oldh, popped, it, nx, st, wi, wl, ph, scan, v, 
-                               ipi, ret >>
+                               wnlive, regd, sleeping, woken, wkind, faults, 
+                               sigs, myctr, insig, hcs, alive, cs, pre, T, 
+                               htmp, hg, hf, hheld, entry, i, op, res, tmp, g, 
+                               f, held, old, oldh, popped, it, nx, st, wi, wl, 
+                               ph, scan, v, ipi, ret >>
 
 w_st0(self) == /\ pc[self] = "w_st0"
                /\ IF TSO
@@ -1998,33 +2087,34 @@ w_st0(self) == /\ pc[self] = "w_st0"
                           /\ sb' = sb
                /\ acc' = Ev(self, "st", "gp_futex", 0, "-", "-")
                /\ pc' = [pc EXCEPT ![self] = "w_done"]
-               /\ UNCHANGED << lock, registry, cursnap, qsr, regd, sleeping, 
-                               woken, faults, sigs, myctr, insig, hcs, alive, 
-                               cs, pre, T, htmp, hg, hf, hheld, entry, i, op, 
-                               res, tmp, g, f, held, old, oldh, popped, it, nx, 
-                               st, wi, wl, ph, scan, v, ipi, ret, mret >>
+               /\ UNCHANGED << lock, registry, cursnap, qsr, wnlive, regd, 
+                               sleeping, woken, wkind, faults, sigs, myctr, 
+                               insig, hcs, alive, cs, pre, T, htmp, hg, hf, 
+                               hheld, entry, i, op, res, tmp, g, f, held, old, 
+                               oldh, popped, it, nx, st, wi, wl, ph, scan, v, 
+                               ipi, ret, mret >>
 
 w_done(self) == /\ pc[self] = "w_done"
                 /\ IF ret[self] = "s_mb2"
                       THEN /\ pc' = [pc EXCEPT ![self] = "s_mb2"]
                       ELSE /\ pc' = [pc EXCEPT ![self] = "s_splice"]
                 /\ UNCHANGED << mem, sb, lock, acc, registry, cursnap, qsr, 
-                                regd, sleeping, woken, faults, sigs, myctr, 
-                                insig, hcs, alive, cs, pre, T, htmp, hg, hf, 
-                                hheld, entry, i, op, res, tmp, g, f, held, old, 
-                                oldh, popped, it, nx, st, wi, wl, ph, scan, v, 
-                                ipi, ret, mret >>
+                                wnlive, regd, sleeping, woken, wkind, faults, 
+                                sigs, myctr, insig, hcs, alive, cs, pre, T, 
+                                htmp, hg, hf, hheld, entry, i, op, res, tmp, g, 
+                                f, held, old, oldh, popped, it, nx, st, wi, wl, 
+                                ph, scan, v, ipi, ret, mret >>
 
 w_wait(self) == /\ pc[self] = "w_wait"
                 /\ IF wl[self] < QSAttempts
                       THEN /\ pc' = [pc EXCEPT ![self] = "wr_unl"]
                       ELSE /\ pc' = [pc EXCEPT ![self] = "wg_mm"]
                 /\ UNCHANGED << mem, sb, lock, acc, registry, cursnap, qsr, 
-                                regd, sleeping, woken, faults, sigs, myctr, 
-                                insig, hcs, alive, cs, pre, T, htmp, hg, hf, 
-                                hheld, entry, i, op, res, tmp, g, f, held, old, 
-                                oldh, popped, it, nx, st, wi, wl, ph, scan, v, 
-                                ipi, ret, mret >>
+                                wnlive, regd, sleeping, woken, wkind, faults, 
+                                sigs, myctr, insig, hcs, alive, cs, pre, T, 
+                                htmp, hg, hf, hheld, entry, i, op, res, tmp, g, 
+                                f, held, old, oldh, popped, it, nx, st, wi, wl, 
+                                ph, scan, v, ipi, ret, mret >>
 
 wg_mm(self) == /\ pc[self] = "wg_mm"
                /\ mret' = [mret EXCEPT ![self] = "wg_unl"]
@@ -2032,23 +2122,23 @@ wg_mm(self) == /\ pc[self] = "wg_mm"
                      THEN /\ pc' = [pc EXCEPT ![self] = "wg_unl"]
                      ELSE /\ pc' = [pc EXCEPT ![self] = "master"]
                /\ UNCHANGED << mem, sb, lock, acc, registry, cursnap, qsr, 
-                               regd, sleeping, woken, faults, sigs, myctr, 
-                               insig, hcs, alive, cs, pre, T, htmp, hg, hf, 
-                               hheld, entry, i, op, res, tmp, g, f, held, old, 
-                               oldh, popped, it, nx, st, wi, wl, ph, scan, v, 
-                               ipi, ret >>
+                               wnlive, regd, sleeping, woken, wkind, faults, 
+                               sigs, myctr, insig, hcs, alive, cs, pre, T, 
+                               htmp, hg, hf, hheld, entry, i, op, res, tmp, g, 
+                               f, held, old, oldh, popped, it, nx, st, wi, wl, 
+                               ph, scan, v, ipi, ret >>
 
 wg_unl(self) == /\ pc[self] = "wg_unl"
                 /\ Drained(self)
                 /\ lock' = [lock EXCEPT !["registry_lock"] = "free"]
                 /\ acc' = Ev(self, "unlock", "registry_lock", "-", "-", "-")
                 /\ pc' = [pc EXCEPT ![self] = "wg_ld"]
-                /\ UNCHANGED << mem, sb, registry, cursnap, qsr, regd, 
-                                sleeping, woken, faults, sigs, myctr, insig, 
-                                hcs, alive, cs, pre, T, htmp, hg, hf, hheld, 
-                                entry, i, op, res, tmp, g, f, held, old, oldh, 
-                                popped, it, nx, st, wi, wl, ph, scan, v, ipi, 
-                                ret, mret >>
+                /\ UNCHANGED << mem, sb, registry, cursnap, qsr, wnlive, regd, 
+                                sleeping, woken, wkind, faults, sigs, myctr, 
+                                insig, hcs, alive, cs, pre, T, htmp, hg, hf, 
+                                hheld, entry, i, op, res, tmp, g, f, held, old, 
+                                oldh, popped, it, nx, st, wi, wl, ph, scan, v, 
+                                ipi, ret, mret >>
 
 wg_ld(self) == /\ pc[self] = "wg_ld"
                /\ f' = [f EXCEPT ![self] = Rd(self, "gp_futex")]
@@ -2058,12 +2148,12 @@ wg_ld(self) == /\ pc[self] = "wg_ld"
                      ELSE /\ IF FutexMode = "compat"
                                 THEN /\ pc' = [pc EXCEPT ![self] = "wgc_mb"]
                                 ELSE /\ pc' = [pc EXCEPT ![self] = "wg_fw"]
-               /\ UNCHANGED << mem, sb, lock, registry, cursnap, qsr, regd, 
-                               sleeping, woken, faults, sigs, myctr, insig, 
-                               hcs, alive, cs, pre, T, htmp, hg, hf, hheld, 
-                               entry, i, op, res, tmp, g, held, old, oldh, 
-                               popped, it, nx, st, wi, wl, ph, scan, v, ipi, 
-                               ret, mret >>
+               /\ UNCHANGED << mem, sb, lock, registry, cursnap, qsr, wnlive, 
+                               regd, sleeping, woken, wkind, faults, sigs, 
+                               myctr, insig, hcs, alive, cs, pre, T, htmp, hg, 
+                               hf, hheld, entry, i, op, res, tmp, g, held, old, 
+                               oldh, popped, it, nx, st, wi, wl, ph, scan, v, 
+                               ipi, ret, mret >>
 
 wg_fw(self) == /\ pc[self] = "wg_fw"
                /\ Drained(self)
@@ -2079,41 +2169,35 @@ wg_fw(self) == /\ pc[self] = "wg_fw"
                                      /\ woken' = [woken EXCEPT ![self] = FALSE]
                                      /\ acc' = Ev(self, "fwait", "gp_futex", -1, "-", "SLEEP")
                                      /\ pc' = [pc EXCEPT ![self] = "wg_wk"]
-               /\ UNCHANGED << mem, sb, lock, registry, cursnap, qsr, regd, 
-                               faults, sigs, myctr, insig, hcs, alive, cs, pre, 
-                               T, htmp, hg, hf, hheld, entry, i, op, res, tmp, 
-                               g, f, held, old, oldh, popped, it, nx, st, wi, 
-                               wl, ph, scan, v, ipi, ret, mret >>
+               /\ UNCHANGED << mem, sb, lock, registry, cursnap, qsr, wnlive, 
+                               regd, wkind, faults, sigs, myctr, insig, hcs, 
+                               alive, cs, pre, T, htmp, hg, hf, hheld, entry, 
+                               i, op, res, tmp, g, f, held, old, oldh, popped, 
+                               it, nx, st, wi, wl, ph, scan, v, ipi, ret, mret >>
 
 wg_wk(self) == /\ pc[self] = "wg_wk"
-               /\ \/ /\ woken[self]
-                     /\ acc' = Ev(self, "fwoke", "gp_futex", "-", "-", "WAKE")
-                     /\ UNCHANGED faults
-                  \/ /\ ~woken[self] /\ faults < FaultBudget
-                     /\ faults' = faults + 1
-                     /\ acc' = Ev(self, "fwoke", "gp_futex", "-", "-", "SPURIOUS")
-                  \/ /\ ~woken[self] /\ faults < FaultBudget
-                     /\ faults' = faults + 1
-                     /\ acc' = Ev(self, "fwoke", "gp_futex", "-", "-", "EINTR")
+               /\ woken[self]
+               /\ acc' = Ev(self, "fwoke", "gp_futex", "-", "-", wkind[self])
                /\ sleeping' = [sleeping EXCEPT ![self] = "none"]
                /\ woken' = [woken EXCEPT ![self] = FALSE]
+               /\ wkind' = [wkind EXCEPT ![self] = "WAKE"]
                /\ pc' = [pc EXCEPT ![self] = "wg_ld"]
-               /\ UNCHANGED << mem, sb, lock, registry, cursnap, qsr, regd, 
-                               sigs, myctr, insig, hcs, alive, cs, pre, T, 
-                               htmp, hg, hf, hheld, entry, i, op, res, tmp, g, 
-                               f, held, old, oldh, popped, it, nx, st, wi, wl, 
-                               ph, scan, v, ipi, ret, mret >>
+               /\ UNCHANGED << mem, sb, lock, registry, cursnap, qsr, wnlive, 
+                               regd, faults, sigs, myctr, insig, hcs, alive, 
+                               cs, pre, T, htmp, hg, hf, hheld, entry, i, op, 
+                               res, tmp, g, f, held, old, oldh, popped, it, nx, 
+                               st, wi, wl, ph, scan, v, ipi, ret, mret >>
 
 wgc_mb(self) == /\ pc[self] = "wgc_mb"
                 /\ Drained(self)
                 /\ acc' = Ev(self, "mb", "-", "-", "-", "-")
                 /\ pc' = [pc EXCEPT ![self] = "wgc_ld"]
-                /\ UNCHANGED << mem, sb, lock, registry, cursnap, qsr, regd, 
-                                sleeping, woken, faults, sigs, myctr, insig, 
-                                hcs, alive, cs, pre, T, htmp, hg, hf, hheld, 
-                                entry, i, op, res, tmp, g, f, held, old, oldh, 
-                                popped, it, nx, st, wi, wl, ph, scan, v, ipi, 
-                                ret, mret >>
+                /\ UNCHANGED << mem, sb, lock, registry, cursnap, qsr, wnlive, 
+                                regd, sleeping, woken, wkind, faults, sigs, 
+                                myctr, insig, hcs, alive, cs, pre, T, htmp, hg, 
+                                hf, hheld, entry, i, op, res, tmp, g, f, held, 
+                                old, oldh, popped, it, nx, st, wi, wl, ph, 
+                                scan, v, ipi, ret, mret >>
 
 wgc_ld(self) == /\ pc[self] = "wgc_ld"
                 /\ f' = [f EXCEPT ![self] = Rd(self, "gp_futex")]
@@ -2121,48 +2205,48 @@ wgc_ld(self) == /\ pc[self] = "wgc_ld"
                 /\ IF f'[self] = -1
                       THEN /\ pc' = [pc EXCEPT ![self] = "wgc_ld"]
                       ELSE /\ pc' = [pc EXCEPT ![self] = "wg_ld"]
-                /\ UNCHANGED << mem, sb, lock, registry, cursnap, qsr, regd, 
-                                sleeping, woken, faults, sigs, myctr, insig, 
-                                hcs, alive, cs, pre, T, htmp, hg, hf, hheld, 
-                                entry, i, op, res, tmp, g, held, old, oldh, 
-                                popped, it, nx, st, wi, wl, ph, scan, v, ipi, 
-                                ret, mret >>
+                /\ UNCHANGED << mem, sb, lock, registry, cursnap, qsr, wnlive, 
+                                regd, sleeping, woken, wkind, faults, sigs, 
+                                myctr, insig, hcs, alive, cs, pre, T, htmp, hg, 
+                                hf, hheld, entry, i, op, res, tmp, g, held, 
+                                old, oldh, popped, it, nx, st, wi, wl, ph, 
+                                scan, v, ipi, ret, mret >>
 
 wg_lock(self) == /\ pc[self] = "wg_lock"
                  /\ Drained(self) /\ lock["registry_lock"] = "free"
                  /\ lock' = [lock EXCEPT !["registry_lock"] = self]
                  /\ acc' = Ev(self, "lock", "registry_lock", "-", "-", "-")
                  /\ pc' = [pc EXCEPT ![self] = "w_loop"]
-                 /\ UNCHANGED << mem, sb, registry, cursnap, qsr, regd, 
-                                 sleeping, woken, faults, sigs, myctr, insig, 
-                                 hcs, alive, cs, pre, T, htmp, hg, hf, hheld, 
-                                 entry, i, op, res, tmp, g, f, held, old, oldh, 
-                                 popped, it, nx, st, wi, wl, ph, scan, v, ipi, 
-                                 ret, mret >>
+                 /\ UNCHANGED << mem, sb, registry, cursnap, qsr, wnlive, regd, 
+                                 sleeping, woken, wkind, faults, sigs, myctr, 
+                                 insig, hcs, alive, cs, pre, T, htmp, hg, hf, 
+                                 hheld, entry, i, op, res, tmp, g, f, held, 
+                                 old, oldh, popped, it, nx, st, wi, wl, ph, 
+                                 scan, v, ipi, ret, mret >>
 
 wr_unl(self) == /\ pc[self] = "wr_unl"
                 /\ Drained(self)
                 /\ lock' = [lock EXCEPT !["registry_lock"] = "free"]
                 /\ acc' = Ev(self, "unlock", "registry_lock", "-", "-", "-")
                 /\ pc' = [pc EXCEPT ![self] = "wr_lock"]
-                /\ UNCHANGED << mem, sb, registry, cursnap, qsr, regd, 
-                                sleeping, woken, faults, sigs, myctr, insig, 
-                                hcs, alive, cs, pre, T, htmp, hg, hf, hheld, 
-                                entry, i, op, res, tmp, g, f, held, old, oldh, 
-                                popped, it, nx, st, wi, wl, ph, scan, v, ipi, 
-                                ret, mret >>
+                /\ UNCHANGED << mem, sb, registry, cursnap, qsr, wnlive, regd, 
+                                sleeping, woken, wkind, faults, sigs, myctr, 
+                                insig, hcs, alive, cs, pre, T, htmp, hg, hf, 
+                                hheld, entry, i, op, res, tmp, g, f, held, old, 
+                                oldh, popped, it, nx, st, wi, wl, ph, scan, v, 
+                                ipi, ret, mret >>
 
 wr_lock(self) == /\ pc[self] = "wr_lock"
                  /\ Drained(self) /\ lock["registry_lock"] = "free"
                  /\ lock' = [lock EXCEPT !["registry_lock"] = self]
                  /\ acc' = Ev(self, "lock", "registry_lock", "-", "-", "-")
                  /\ pc' = [pc EXCEPT ![self] = "w_loop"]
-                 /\ UNCHANGED << mem, sb, registry, cursnap, qsr, regd, 
-                                 sleeping, woken, faults, sigs, myctr, insig, 
-                                 hcs, alive, cs, pre, T, htmp, hg, hf, hheld, 
-                                 entry, i, op, res, tmp, g, f, held, old, oldh, 
-                                 popped, it, nx, st, wi, wl, ph, scan, v, ipi, 
-                                 ret, mret >>
+                 /\ UNCHANGED << mem, sb, registry, cursnap, qsr, wnlive, regd, 
+                                 sleeping, woken, wkind, faults, sigs, myctr, 
+                                 insig, hcs, alive, cs, pre, T, htmp, hg, hf, 
+                                 hheld, entry, i, op, res, tmp, g, f, held, 
+                                 old, oldh, popped, it, nx, st, wi, wl, ph, 
+                                 scan, v, ipi, ret, mret >>
 
 master(self) == /\ pc[self] = "master"
                 /\ IF Flavor = "memb" /\ SysMb
@@ -2171,21 +2255,22 @@ master(self) == /\ pc[self] = "master"
                       ELSE /\ pc' = [pc EXCEPT ![self] = "m_mb"]
                            /\ ipi' = ipi
                 /\ UNCHANGED << mem, sb, lock, acc, registry, cursnap, qsr, 
-                                regd, sleeping, woken, faults, sigs, myctr, 
-                                insig, hcs, alive, cs, pre, T, htmp, hg, hf, 
-                                hheld, entry, i, op, res, tmp, g, f, held, old, 
-                                oldh, popped, it, nx, st, wi, wl, ph, scan, v, 
-                                ret, mret >>
+                                wnlive, regd, sleeping, woken, wkind, faults, 
+                                sigs, myctr, insig, hcs, alive, cs, pre, T, 
+                                htmp, hg, hf, hheld, entry, i, op, res, tmp, g, 
+                                f, held, old, oldh, popped, it, nx, st, wi, wl, 
+                                ph, scan, v, ret, mret >>
 
 m_mb(self) == /\ pc[self] = "m_mb"
               /\ Drained(self)
               /\ acc' = Ev(self, "mb", "-", "-", "-", "-")
               /\ pc' = [pc EXCEPT ![self] = "m_ret"]
-              /\ UNCHANGED << mem, sb, lock, registry, cursnap, qsr, regd, 
-                              sleeping, woken, faults, sigs, myctr, insig, hcs, 
-                              alive, cs, pre, T, htmp, hg, hf, hheld, entry, i, 
-                              op, res, tmp, g, f, held, old, oldh, popped, it, 
-                              nx, st, wi, wl, ph, scan, v, ipi, ret, mret >>
+              /\ UNCHANGED << mem, sb, lock, registry, cursnap, qsr, wnlive, 
+                              regd, sleeping, woken, wkind, faults, sigs, 
+                              myctr, insig, hcs, alive, cs, pre, T, htmp, hg, 
+                              hf, hheld, entry, i, op, res, tmp, g, f, held, 
+                              old, oldh, popped, it, nx, st, wi, wl, ph, scan, 
+                              v, ipi, ret, mret >>
 
 m_ipi(self) == /\ pc[self] = "m_ipi"
                /\ IF ipi[self] # {}
@@ -2196,21 +2281,21 @@ m_ipi(self) == /\ pc[self] = "m_ipi"
                      ELSE /\ pc' = [pc EXCEPT ![self] = "m_sys"]
                           /\ ipi' = ipi
                /\ UNCHANGED << mem, sb, lock, acc, registry, cursnap, qsr, 
-                               regd, sleeping, woken, faults, sigs, myctr, 
-                               insig, hcs, alive, cs, pre, T, htmp, hg, hf, 
-                               hheld, entry, i, op, res, tmp, g, f, held, old, 
-                               oldh, popped, it, nx, st, wi, wl, ph, scan, v, 
-                               ret, mret >>
+                               wnlive, regd, sleeping, woken, wkind, faults, 
+                               sigs, myctr, insig, hcs, alive, cs, pre, T, 
+                               htmp, hg, hf, hheld, entry, i, op, res, tmp, g, 
+                               f, held, old, oldh, popped, it, nx, st, wi, wl, 
+                               ph, scan, v, ret, mret >>
 
 m_sys(self) == /\ pc[self] = "m_sys"
                /\ acc' = Ev(self, "sysmb", "-", "-", "-", "-")
                /\ pc' = [pc EXCEPT ![self] = "m_ret"]
-               /\ UNCHANGED << mem, sb, lock, registry, cursnap, qsr, regd, 
-                               sleeping, woken, faults, sigs, myctr, insig, 
-                               hcs, alive, cs, pre, T, htmp, hg, hf, hheld, 
-                               entry, i, op, res, tmp, g, f, held, old, oldh, 
-                               popped, it, nx, st, wi, wl, ph, scan, v, ipi, 
-                               ret, mret >>
+               /\ UNCHANGED << mem, sb, lock, registry, cursnap, qsr, wnlive, 
+                               regd, sleeping, woken, wkind, faults, sigs, 
+                               myctr, insig, hcs, alive, cs, pre, T, htmp, hg, 
+                               hf, hheld, entry, i, op, res, tmp, g, f, held, 
+                               old, oldh, popped, it, nx, st, wi, wl, ph, scan, 
+                               v, ipi, ret, mret >>
 
 m_ret(self) == /\ pc[self] = "m_ret"
                /\ IF mret[self] = "s_p1"
@@ -2223,31 +2308,31 @@ m_ret(self) == /\ pc[self] = "m_ret"
                                                       THEN /\ pc' = [pc EXCEPT ![self] = "wg_unl"]
                                                       ELSE /\ pc' = [pc EXCEPT ![self] = "s_out"]
                /\ UNCHANGED << mem, sb, lock, acc, registry, cursnap, qsr, 
-                               regd, sleeping, woken, faults, sigs, myctr, 
-                               insig, hcs, alive, cs, pre, T, htmp, hg, hf, 
-                               hheld, entry, i, op, res, tmp, g, f, held, old, 
-                               oldh, popped, it, nx, st, wi, wl, ph, scan, v, 
-                               ipi, ret, mret >>
+                               wnlive, regd, sleeping, woken, wkind, faults, 
+                               sigs, myctr, insig, hcs, alive, cs, pre, T, 
+                               htmp, hg, hf, hheld, entry, i, op, res, tmp, g, 
+                               f, held, old, oldh, popped, it, nx, st, wi, wl, 
+                               ph, scan, v, ipi, ret, mret >>
 
 t_ret(self) == /\ pc[self] = "t_ret"
                /\ i' = [i EXCEPT ![self] = i[self] + 1]
                /\ pc' = [pc EXCEPT ![self] = "t_top"]
                /\ UNCHANGED << mem, sb, lock, acc, registry, cursnap, qsr, 
-                               regd, sleeping, woken, faults, sigs, myctr, 
-                               insig, hcs, alive, cs, pre, T, htmp, hg, hf, 
-                               hheld, entry, op, res, tmp, g, f, held, old, 
-                               oldh, popped, it, nx, st, wi, wl, ph, scan, v, 
-                               ipi, ret, mret >>
+                               wnlive, regd, sleeping, woken, wkind, faults, 
+                               sigs, myctr, insig, hcs, alive, cs, pre, T, 
+                               htmp, hg, hf, hheld, entry, op, res, tmp, g, f, 
+                               held, old, oldh, popped, it, nx, st, wi, wl, ph, 
+                               scan, v, ipi, ret, mret >>
 
 t_end(self) == /\ pc[self] = "t_end"
                /\ TRUE
                /\ pc' = [pc EXCEPT ![self] = "Done"]
                /\ UNCHANGED << mem, sb, lock, acc, registry, cursnap, qsr, 
-                               regd, sleeping, woken, faults, sigs, myctr, 
-                               insig, hcs, alive, cs, pre, T, htmp, hg, hf, 
-                               hheld, entry, i, op, res, tmp, g, f, held, old, 
-                               oldh, popped, it, nx, st, wi, wl, ph, scan, v, 
-                               ipi, ret, mret >>
+                               wnlive, regd, sleeping, woken, wkind, faults, 
+                               sigs, myctr, insig, hcs, alive, cs, pre, T, 
+                               htmp, hg, hf, hheld, entry, i, op, res, tmp, g, 
+                               f, held, old, oldh, popped, it, nx, st, wi, wl, 
+                               ph, scan, v, ipi, ret, mret >>
 
 thr(self) == t_top(self) \/ t_disp(self) \/ g_lock(self) \/ g_add(self)
                 \/ g_unl(self) \/ x_lock(self) \/ x_del(self)
@@ -2284,6 +2369,7 @@ thr(self) == t_top(self) \/ t_disp(self) \/ g_lock(self) \/ g_add(self)
                 \/ t_ret(self) \/ t_end(self)
 
 Next == (\E self \in Flushers: flusher(self))
+           \/ (\E self \in FaultIds: faulter(self))
            \/ (\E self \in SigIds: sig(self))
            \/ (\E self \in Threads: thr(self))
 
@@ -2296,6 +2382,7 @@ Spec == /\ Init /\ [][Next]_vars
 AllDone == \A t \in Threads : pc[t] = "Done"
 \* with signals: a thread does not take steps while its handler runs; handlers and flushers are always allowed
 SigNext == \/ \E self \in Flushers : flusher(self)
+           \/ \E self \in FaultIds : faulter(self)
            \/ \E self \in SigIds : sig(self)
            \/ \E self \in Threads : ~insig[self] /\ thr(self)
 SigSpec == Init /\ [][SigNext]_vars
@@ -2317,6 +2404,9 @@ SyncReturns == \A t \in Threads : (pc[t] = "s_call") ~> (pc[t] = "t_ret")     \*
 \* ---- C15: the three reader lists partition exactly the set of registered threads; outside a grace period all of them are
 \* back in the registry.  (No load of a departed reader's word: assertion in w_ldr.  Sections only of registered threads:
 \* assertion in rl_top, so GPGuarantee in s_ret ranges over sections of registered threads.)
+\* registry lock is never held across a sleep (futex or condition variable); a buffered store to a wait node never outlives the node
+NoSleepWithRegistryLock == \A t \in Threads : sleeping[t] # "none" => lock["registry_lock"] # t /\ (sleeping[t] # "gp_futex" => lock["gp_lock"] # t)
+WaitNodeQuiet == \A t \in Threads : \A j \in DOMAIN sb[t] : \A u \in Threads : sb[t][j][1] \in {WnNext(Wn(u)), WnState(Wn(u))} => Wn(u) \in wnlive
 RegistryExact == /\ registry \cup cursnap \cup qsr = regd
                  /\ registry \cap cursnap = {} /\ registry \cap qsr = {} /\ cursnap \cap qsr = {}
 ListsHome == lock["gp_lock"] = "free" => cursnap = {} /\ qsr = {}
